@@ -41,35 +41,37 @@ Proof.
 Qed.
 
 (* ---------------------------------------------------------------- resolution facts *)
-Lemma resolve_direct_find : forall fs b p f, resolve_direct fs b p = Some f -> exists m, find_file fs f = Some m.
+Lemma resolve_in_find : forall fs d p f, resolve_in fs d p = Some f -> exists m, find_file fs f = Some m.
 Proof.
-  unfold resolve_direct; intros fs b p f.
-  destruct (find_file fs (b ++ p)) eqn:E1.
+  unfold resolve_in; intros fs d p f.
+  destruct (find_file fs (d ++ p)) eqn:E1.
   - intro H; inversion H; subst; eauto.
-  - destruct (find_file fs (b ++ p ++ [MODSEG])) eqn:E2; intro H; inversion H; subst; eauto.
+  - destruct (find_file fs (d ++ p ++ [MODSEG])) eqn:E2; intro H; inversion H; subst; eauto.
 Qed.
 
-Lemma resolve_fb_shape : forall fs b p f a s, resolve_fb fs b p = Some (f, a, s) ->
-  (exists m, find_file fs f = Some m) /\ ((a = p /\ s = None) \/ (a = removelast p /\ s = Some (last_seg p))).
+Lemma resolve_direct_find : forall fs r b p f, resolve_direct fs r b p = Some f -> exists m, find_file fs f = Some m.
 Proof.
-  unfold resolve_fb; intros fs b p f a s.
-  destruct (resolve_direct fs b p) eqn:E1.
+  unfold resolve_direct; intros fs r b p f.
+  destruct (resolve_in fs b p) eqn:E1.
+  - intro H; inversion H; subst. eapply resolve_in_find; eauto.
+  - destruct (key_eqb b r); [discriminate|]. apply resolve_in_find.
+Qed.
+
+Lemma resolve_fb_shape : forall fs r b p f a s, resolve_fb fs r b p = Some (f, a, s) ->
+  (exists m, find_file fs f = Some m) /\
+  ((resolve_direct fs r b p = Some f /\ a = p /\ s = None) \/
+   (resolve_direct fs r b p = None /\ a = removelast p /\ s = Some (last_seg p) /\ a <> [])).
+Proof.
+  unfold resolve_fb; intros fs r b p f a s.
+  destruct (resolve_direct fs r b p) eqn:E1.
   - intro H; inversion H; subst. split; [eapply resolve_direct_find; eauto | auto].
-  - destruct p as [|x [|y r]]; try discriminate.
-    destruct (resolve_direct fs b (removelast (x :: y :: r))) eqn:E2; try discriminate.
-    intro H; inversion H; subst. split; [eapply resolve_direct_find; eauto | auto].
+  - destruct p as [|x [|y t]]; try discriminate.
+    destruct (resolve_direct fs r b (removelast (x :: y :: t))) eqn:E2; try discriminate.
+    intro H; inversion H; subst. split; [eapply resolve_direct_find; eauto|].
+    right. repeat split; auto. cbn. discriminate.
 Qed.
 
 (* ================================================================ no divergence (any tree) *)
-Definition keys_of_import (i : import) : list key := [i_path i; removelast (i_path i)].
-
-Lemma all_keys_In : forall fs f m i, In (f, m) fs -> In i (m_imports m) ->
-  incl (keys_of_import i) (all_keys fs).
-Proof.
-  intros fs f m i Hf Hi k Hk. unfold all_keys. apply in_flat_map. exists (f, m); split; [exact Hf|].
-  apply in_flat_map. exists i; split; [exact Hi | exact Hk].
-Qed.
-
 Definition has_key {A} (k : key) (l : list (key * A)) : Prop := lookup k l <> None.
 
 Lemma has_key_cons : forall A k k' (v : A) l, has_key k l -> has_key k ((k', v) :: l).
@@ -77,9 +79,11 @@ Proof.
   unfold has_key; intros A k k' v l H. cbn. destruct (key_eqb k k'); [discriminate | exact H].
 Qed.
 
+Definition all_files (fs : fsys) : list fpath := map fst fs.
+
 Record dinv (fs : fsys) (st : lstate) : Prop := {
   d_nodup : NoDup (stack st);
-  d_incl : incl (stack st) (all_keys fs);
+  d_incl : incl (stack st) (all_files fs);
   d_loaded : forall k, In k (stack st) -> has_key k (loaded st)
 }.
 
@@ -91,8 +95,7 @@ Definition dpost {A} (st : lstate) (r : res (lstate * A)) : Prop :=
   end.
 
 Definition dgood (fs : fsys) (ld : loader) (n : nat) : Prop :=
-  forall j s, incl (keys_of_import j) (all_keys fs) -> dinv fs s ->
-              (n + length (stack s) > length (all_keys fs))%nat -> dpost s (ld j s).
+  forall j s, dinv fs s -> (n + length (stack s) > length (all_files fs))%nat -> dpost s (ld j s).
 
 Lemma dinv_step : forall fs s s', dinv fs s -> stack s' = stack s ->
   (forall k, has_key k (loaded s) -> has_key k (loaded s')) -> dinv fs s'.
@@ -100,36 +103,33 @@ Proof.
   intros fs s s' [H1 H2 H3] Hs Hl. split; rewrite Hs; auto.
 Qed.
 
-Lemma go_mod_d : forall fs ld n imps s acc,
-  dgood fs ld n ->
-  (forall j, In j imps -> incl (keys_of_import j) (all_keys fs)) ->
-  dinv fs s -> (n + length (stack s) > length (all_keys fs))%nat ->
-  dpost s (go_mod ld imps s acc).
+Lemma go_mod_d : forall fs root ld n imps s acc,
+  dgood fs ld n -> dinv fs s -> (n + length (stack s) > length (all_files fs))%nat ->
+  dpost s (go_mod fs root ld imps s acc).
 Proof.
-  intros fs ld n imps; induction imps as [|j r IH]; intros s acc Hld Hk Hinv Hf; cbn.
+  intros fs root ld n imps; induction imps as [|j r IH]; intros s acc Hld Hinv Hf; cbn.
   - split; auto.
-  - pose proof (Hld j s (Hk j (or_introl eq_refl)) Hinv Hf) as Hj.
+  - pose proof (Hld j s Hinv Hf) as Hj.
     destruct (ld j s) as [[s' lr]| |]; cbn in Hj; [| exact I | contradiction].
     destruct Hj as [Hs Hl].
     assert (Hinv' : dinv fs s') by (eapply dinv_step; eauto).
-    assert (Hf' : (n + length (stack s') > length (all_keys fs))%nat) by (rewrite Hs; exact Hf).
-    pose proof (IH s' (contrib_mod acc j lr (loaded s')) Hld (fun j' Hj' => Hk j' (or_intror Hj')) Hinv' Hf') as Hr.
-    destruct (go_mod ld r s' (contrib_mod acc j lr (loaded s'))) as [[s2 a2]| |]; cbn in *; auto.
+    assert (Hf' : (n + length (stack s') > length (all_files fs))%nat) by (rewrite Hs; exact Hf).
+    pose proof (IH s' (contrib_mod acc j lr (module_for fs root (base s') j (loaded s'))) Hld Hinv' Hf') as Hr.
+    destruct (go_mod fs root ld r s' _) as [[s2 a2]| |]; cbn in *; auto.
     destruct Hr as [Hs2 Hl2]. split; [congruence | auto].
 Qed.
 
-Lemma compile_d : forall fs ld n file actual sym i m st,
-  dgood fs ld n ->
-  In (file, m) fs -> In actual (all_keys fs) -> lookup actual (loaded st) = None ->
-  dinv fs st -> (S n + length (stack st) > length (all_keys fs))%nat ->
-  dpost st (compile ld file actual sym i m st).
+Lemma compile_d : forall fs root ld n file eimp m st,
+  dgood fs ld n -> In file (all_files fs) -> lookup file (loaded st) = None ->
+  dinv fs st -> (S n + length (stack st) > length (all_files fs))%nat ->
+  dpost st (compile fs root ld file eimp m st).
 Proof.
-  intros fs ld n file actual sym i m st Hld Hm Ha Hnl Hinv Hf.
+  intros fs root ld n file eimp m st Hld Ha Hnl Hinv Hf.
   unfold compile.
   set (info := {| mi_file := file; mi_exports := pub_names m; mi_name := _ |}).
-  set (st1 := {| loaded := (actual, info) :: loaded st; stack := actual :: stack st;
+  set (st1 := {| loaded := (file, info) :: loaded st; stack := file :: stack st;
                  base := dir_of file; ns := ns st; events := events st |}).
-  assert (Hni : ~ In actual (stack st)).
+  assert (Hni : ~ In file (stack st)).
   { intro Hin. apply (d_loaded _ _ Hinv) in Hin. unfold has_key in Hin. congruence. }
   assert (Hinv1 : dinv fs st1).
   { split; cbn.
@@ -138,10 +138,9 @@ Proof.
     - intros k [<-|Hk]; unfold has_key.
       + rewrite lookup_cons_eq; discriminate.
       + apply has_key_cons. apply (d_loaded _ _ Hinv); exact Hk. }
-  assert (Hf1 : (n + length (stack st1) > length (all_keys fs))%nat) by (cbn; lia).
-  pose proof (go_mod_d fs ld n (m_imports m) st1 ([], []) Hld
-                (fun j Hj => all_keys_In fs file m j Hm Hj) Hinv1 Hf1) as Hg.
-  destruct (go_mod ld (m_imports m) st1 ([], [])) as [[st2 acc]| |]; cbn in Hg; [| exact I | contradiction].
+  assert (Hf1 : (n + length (stack st1) > length (all_files fs))%nat) by (cbn; lia).
+  pose proof (go_mod_d fs root ld n (m_imports m) st1 ([], []) Hld Hinv1 Hf1) as Hg.
+  destruct (go_mod fs root ld (m_imports m) st1 ([], [])) as [[st2 acc]| |]; cbn in Hg; [| exact I | contradiction].
   destruct Hg as [Hs Hl].
   match goal with |- context [bind_exports ?a ?b ?c] => destruct (bind_exports a b c) end; cbn; [| exact I].
   split.
@@ -149,51 +148,38 @@ Proof.
   - intros k Hk. apply Hl. cbn. apply has_key_cons; exact Hk.
 Qed.
 
-Lemma load_step_d : forall fs ld n, dgood fs ld n -> dgood fs (load_step fs ld) (S n).
+Lemma load_step_d : forall fs root ld n, dgood fs ld n -> dgood fs (load_step fs root ld) (S n).
 Proof.
-  intros fs ld n Hld i st Hk Hinv Hf. unfold load_step. cbv zeta.
-  remember (i_path i) as p eqn:Ep in |- *. symmetry in Ep. destruct p as [|x p']; [exact I|].
+  intros fs root ld n Hld i st Hinv Hf. unfold load_step. cbv zeta.
+  destruct (i_path i) as [|x p']; [exact I|].
   destruct (is_std (x :: p')); [cbn; auto|].
-  destruct (mem_key (x :: p') (stack st)); [exact I|].
-  destruct (lookup (x :: p') (loaded st)) as [info|] eqn:El.
-  - destruct (bind_exports i (mi_exports info) (ns st)); cbn; auto.
-  - destruct (resolve_fb fs (base st) (x :: p')) as [[[file actual] sym]|] eqn:Er; [| exact I].
-    apply resolve_fb_shape in Er as [[m Hm] Hshape].
-    assert (Hact : In actual (all_keys fs) /\ lookup actual (loaded st) = None \/
-                   (exists s, sym = Some s) /\ lookup actual (loaded st) <> None).
-    { destruct Hshape as [[-> ->]|[-> ->]].
-      - left; split; [apply Hk; unfold keys_of_import; rewrite Ep; left; reflexivity | exact El].
-      - destruct (lookup (removelast (x :: p')) (loaded st)) eqn:E2.
-        + right; split; [eauto | discriminate].
-        + left; split; [apply Hk; unfold keys_of_import; rewrite Ep; right; left; reflexivity | reflexivity]. }
-    destruct Hact as [[Ha Hn]|[[s ->] Hn]].
-    + rewrite Hn. rewrite Hm.
-      assert (Hc : dpost st (compile ld file actual sym i m st)).
-      { eapply compile_d; eauto. apply lookup_In; exact Hm. }
-      destruct sym; exact Hc.
-    + destruct (lookup actual (loaded st)); [cbn; auto | contradiction].
+  destruct (resolve_fb fs root (base st) (x :: p')) as [[[file actual] sym]|] eqn:Er; [| exact I].
+  apply resolve_fb_shape in Er as [[m Hm] _].
+  destruct (mem_key file (stack st)); [exact I|].
+  destruct (lookup file (loaded st)) as [info|] eqn:El.
+  - match goal with |- context [bind_exports ?a ?b ?c] => destruct (bind_exports a b c) end; cbn; auto.
+  - rewrite Hm. eapply compile_d; eauto.
+    apply lookup_In in Hm. unfold all_files. change file with (fst (file, m)). apply in_map; exact Hm.
 Qed.
 
-Lemma load_d : forall fs n, dgood fs (load fs n) n.
+Lemma load_d : forall fs root n, dgood fs (load fs root n) n.
 Proof.
-  intros fs n; induction n as [|n IH].
-  - intros j s _ Hinv Hf. exfalso.
+  intros fs root n; induction n as [|n IH].
+  - intros j s Hinv Hf. exfalso.
     pose proof (NoDup_incl_length (d_nodup _ _ Hinv) (d_incl _ _ Hinv)). cbn in Hf. lia.
   - cbn [load]. apply load_step_d; exact IH.
 Qed.
 
-Lemma entry_go_d : forall fs n imps s acc orig,
-  (forall j, In j imps -> incl (keys_of_import j) (all_keys fs)) ->
-  dinv fs s -> (n + length (stack s) > length (all_keys fs))%nat ->
-  entry_go fs n imps s acc orig <> Fuel.
+Lemma entry_go_d : forall fs root n imps s acc orig,
+  dinv fs s -> (n + length (stack s) > length (all_files fs))%nat ->
+  entry_go fs root n imps s acc orig <> Fuel.
 Proof.
-  intros fs n imps; induction imps as [|j r IH]; intros s acc orig Hk Hinv Hf; cbn; [discriminate|].
-  pose proof (load_d fs n j s (Hk j (or_introl eq_refl)) Hinv Hf) as Hj.
-  destruct (load fs n j s) as [[s' lr]| |]; cbn in Hj; [| discriminate | contradiction].
+  intros fs root n imps; induction imps as [|j r IH]; intros s acc orig Hinv Hf; cbn; [discriminate|].
+  pose proof (load_d fs root n j s Hinv Hf) as Hj.
+  destruct (load fs root n j s) as [[s' lr]| |]; cbn in Hj; [| discriminate | contradiction].
   destruct Hj as [Hs Hl].
-  destruct (contrib_entry acc orig j lr (loaded s')) as [[acc' orig']|]; [| discriminate].
+  destruct (contrib_entry acc orig j lr _) as [[acc' orig']|]; [| discriminate].
   apply IH.
-  - intros j' Hj'; apply Hk; right; exact Hj'.
   - eapply dinv_step; eauto.
   - rewrite Hs; exact Hf.
 Qed.
@@ -203,21 +189,20 @@ Lemma no_divergence_lemma : forall fs entry fuel,
 Proof.
   intros fs entry fuel Hf. unfold run.
   destruct (find_file fs entry) as [m|] eqn:Em; [| discriminate].
-  pose proof (entry_go_d fs fuel (m_imports m) (init_state entry) ([], []) []) as H.
-  destruct (entry_go fs fuel (m_imports m) (init_state entry) ([], []) []) as [[st acc]| |]; try discriminate.
+  pose proof (entry_go_d fs (dir_of entry) fuel (m_imports m) (init_state entry) ([], []) []) as H.
+  destruct (entry_go fs (dir_of entry) fuel (m_imports m) (init_state entry) ([], []) []) as [[st acc]| |]; try discriminate.
   exfalso. apply H; auto.
-  - intros j Hj. eapply all_keys_In; [apply lookup_In; exact Em | exact Hj].
   - split; cbn; [constructor | intros k [] | intros k []].
-  - cbn. unfold fuel_bound in Hf. lia.
+  - cbn. unfold fuel_bound, all_files in *. rewrite map_length. lia.
 Qed.
 
-(* ================================================================ the DFS is right when keys name files *)
+(* ================================================================ the DFS is right, for every tree *)
 Lemma app_snoc_split : forall A (l : list A) x l1 g l2,
   l ++ [x] = l1 ++ g :: l2 ->
   (l2 = [] /\ l1 = l /\ g = x) \/ (exists l2', l2 = l2' ++ [x] /\ l = l1 ++ g :: l2').
 Proof.
   intros A l x l1 g l2. destruct l2 as [|y l2' _] using rev_ind; intro H.
-  - left. change (l1 ++ [g]) with (l1 ++ [g]) in H. apply app_inj_tail in H as [H1 H2]. auto.
+  - left. apply app_inj_tail in H as [H1 H2]. auto.
   - right. exists l2'. replace (l1 ++ g :: l2' ++ [y]) with ((l1 ++ g :: l2') ++ [y]) in H
       by (rewrite <- app_assoc; reflexivity).
     apply app_inj_tail in H as [H1 H2]. subst; auto.
@@ -232,46 +217,63 @@ Proof.
     + apply IH; [assumption | intro; apply Hx; right; assumption].
 Qed.
 
+Lemma meaning_cases : forall fs root f i g fm, meaning fs root f i = Some (g, fm) ->
+  is_std (i_path i) = false /\ (exists m, find_file fs g = Some m) /\
+  ((resolve_direct fs root (dir_of f) (i_path i) = Some g /\ fm = i_form i) \/
+   (resolve_direct fs root (dir_of f) (i_path i) = None /\ fm = FSymbols [last_seg (i_path i)])).
+Proof.
+  unfold meaning; intros fs root f i g fm.
+  destruct (is_std (i_path i)); [discriminate|].
+  destruct (resolve_fb fs root (dir_of f) (i_path i)) as [[[g' a] s]|] eqn:Er; [| discriminate].
+  apply resolve_fb_shape in Er as [Hm [(Hd & -> & ->)|(Hd & -> & -> & _)]]; intro H; inversion H; subst; auto.
+Qed.
+
+Lemma target_meaning : forall fs root f i g, target fs root f i = Some g <-> exists fm, meaning fs root f i = Some (g, fm).
+Proof.
+  unfold target; intros fs root f i g. destruct (meaning fs root f i) as [[g' fm]|]; split.
+  - intro H; inversion H; eauto.
+  - intros [fm' H]; inversion H; reflexivity.
+  - discriminate.
+  - intros [fm' H]; discriminate.
+Qed.
+
+Lemma mem_id_true_In : forall n l, mem_id n l = true -> In n l.
+Proof.
+  induction l as [|x l IH]; cbn; [discriminate|]. intro H. apply orb_true_iff in H as [H|H].
+  - apply N.eqb_eq in H; auto.
+  - auto.
+Qed.
+
+Lemma check_syms_in : forall l ex s, check_syms l ex s = true -> forall x, In x l -> In x ex.
+Proof.
+  induction l as [|n r IH]; intros ex s H x Hx; [destruct Hx|]. cbn in H.
+  apply andb_true_iff in H as [H1 H2]. destruct Hx as [<-|Hx]; [apply mem_id_true_In; exact H1|].
+  destruct (ns_get (GB n) s); [eapply IH; eauto | discriminate].
+Qed.
+
 Section Dfs.
 Variable fs : fsys.
 Variable E : fpath.
-
-Definition imp_of (f : fpath) (i : import) : Prop :=
-  exists m, find_file fs f = Some m /\ In i (m_imports m) /\ is_std (i_path i) = false.
-
-Hypothesis HP : forall f i, imp_of f i -> forall g a s,
-  resolve_fb fs (dir_of f) (i_path i) = Some (g, a, s) -> s = None.
-Hypothesis HF : forall f i f' i', imp_of f i -> imp_of f' i' -> i_path i = i_path i' ->
-  target fs f i = target fs f' i'.
-Hypothesis HI : forall f i f' i' g, imp_of f i -> imp_of f' i' ->
-  target fs f i = Some g -> target fs f' i' = Some g -> i_path i = i_path i'.
+Let root := dir_of E.
 
 Definition trace (st : lstate) : list fpath := map ev_file (events st).
 
-Definition key_of (k : key) (g : fpath) : Prop :=
-  exists f i, reachable fs E f /\ imp_of f i /\ i_path i = k /\ target fs f i = Some g.
+Definition info_ok (k : fpath) (info : minfo) : Prop :=
+  mi_file info = k /\ exists m', find_file fs k = Some m' /\ mi_exports info = pub_names m'.
 
-Definition info_ok (info : minfo) : Prop :=
-  exists m', find_file fs (mi_file info) = Some m' /\ mi_exports info = pub_names m'.
-
-(* compile-time name sets against a grant function G, for the imports `imps` *)
-Definition names_spec (G : import -> list ident) (imps : list import) (acc : names) : Prop :=
-  (forall q, In q (fst acc) <-> exists j, In j imps /\ granted_qualifier j = Some q) /\
-  (forall n, In n (snd acc) <-> exists j, In j imps /\ In n (G j)).
-
-Local Notation ev_ok_mod := (ModulesSpec.ev_ok_mod fs).
+Definition ev_ok (ev : event) : Prop :=
+  ev_key ev <> [] /\ names_ok fs E ev /\ selected_are_pub fs E (ev_file ev).
 
 Record inv (st : lstate) : Prop := {
   v_nodup : NoDup (stack st);
   v_stack : forall k, In k (stack st) -> has_key k (loaded st);
-  v_key : forall k info, lookup k (loaded st) = Some info -> key_of k (mi_file info);
-  v_done : forall k info, lookup k (loaded st) = Some info -> In k (stack st) \/ In (mi_file info) (trace st);
+  v_key : forall k info, lookup k (loaded st) = Some info -> exists f, reachable fs E f /\ edge fs E f k;
+  v_done : forall k info, lookup k (loaded st) = Some info -> In k (stack st) \/ In k (trace st);
   v_tnodup : NoDup (trace st);
-  v_towner : forall g, In g (trace st) ->
-     exists k info, lookup k (loaded st) = Some info /\ mi_file info = g /\ ~ In k (stack st);
-  v_post : postorder fs (trace st);
-  v_info : forall k info, lookup k (loaded st) = Some info -> info_ok info;
-  v_evs : forall ev, In ev (events st) -> ev_ok_mod ev
+  v_towner : forall g, In g (trace st) -> has_key g (loaded st) /\ ~ In g (stack st);
+  v_post : postorder fs E (trace st);
+  v_info : forall k info, lookup k (loaded st) = Some info -> info_ok k info;
+  v_evs : forall ev, In ev (events st) -> ev_ok ev
 }.
 
 Definition mono (st st' : lstate) : Prop :=
@@ -282,12 +284,19 @@ Definition frame (st st' : lstate) : Prop :=
 
 (* what a successful load of import i written in file cur guarantees *)
 Definition loaded_as (cur : fpath) (i : import) (st' : lstate) : Prop :=
-  exists g info, target fs cur i = Some g /\ In g (trace st') /\
-                 lookup (i_path i) (loaded st') = Some info /\ mi_file info = g.
+  exists g fm info, meaning fs root cur i = Some (g, fm) /\ In g (trace st') /\
+    lookup g (loaded st') = Some info /\
+    (forall l s, fm = FSymbols l -> In s l -> In s (mi_exports info)).
+
+Definition lres_spec (cur : fpath) (i : import) : lres :=
+  match meaning fs root cur i with
+  | Some (_, fm) => lres_of {| i_path := i_path i; i_form := fm |}
+  | None => lres_of i
+  end.
 
 Definition vpost (cur : fpath) (i : import) (st : lstate) (r : res (lstate * lres)) : Prop :=
   match r with
-  | Ok (st', lr) => frame st st' /\ lr = lres_of i /\ (is_std (i_path i) = false -> loaded_as cur i st')
+  | Ok (st', lr) => frame st st' /\ lr = lres_spec cur i /\ (is_std (i_path i) = false -> loaded_as cur i st')
   | _ => True
   end.
 
@@ -312,28 +321,47 @@ Qed.
 
 Lemma loaded_as_frame : forall cur i a b, frame a b -> loaded_as cur i a -> loaded_as cur i b.
 Proof.
-  intros cur i a b (_ & _ & _ & Hm & [ext He]) (g & info & Ht & Hin & Hl & Hf).
-  exists g, info. split; [exact Ht|]. split; [rewrite He; apply in_or_app; left; exact Hin|]. auto.
+  intros cur i a b (_ & _ & _ & Hm & [ext He]) (g & fm & info & Ht & Hin & Hl & Hsy).
+  exists g, fm, info. split; [exact Ht|]. split; [rewrite He; apply in_or_app; left; exact Hin|]. auto.
 Qed.
 
-Lemma imp_of_file : forall f m i, find_file fs f = Some m -> In i (m_imports m) ->
-  is_std (i_path i) = false -> imp_of f i.
-Proof. intros f m i Hf Hi Hs. exists m; auto. Qed.
+Lemma loaded_as_pub : forall st f m, inv st ->
+  (forall j, In j (m_imports m) -> is_std (i_path j) = false -> loaded_as f j st) ->
+  find_file fs f = Some m -> selected_are_pub fs E f.
+Proof.
+  intros st f m Hinv Hall Hm m' j Hm' Hj Hstd. rewrite Hm in Hm'; inversion Hm'; subst m'.
+  destruct (Hall j Hj Hstd) as (g & fm & info & Hmean & _ & Hl & Hsy).
+  destruct (v_info _ Hinv _ _ Hl) as (_ & mg & Hmg & Hex).
+  exists g, fm, mg. split; [exact Hmean|]. split; [exact Hmg|]. intros l s Hf Hs. rewrite <- Hex. eauto.
+Qed.
 
-Lemma target_nonstd : forall f i g, target fs f i = Some g -> is_std (i_path i) = false.
-Proof. unfold target; intros f i g. destruct (is_std (i_path i)); [discriminate | reflexivity]. Qed.
+Lemma edge_of_meaning : forall cur m i g fm, find_file fs cur = Some m -> In i (m_imports m) ->
+  meaning fs root cur i = Some (g, fm) -> edge fs E cur g.
+Proof.
+  intros cur m i g fm Hm Hi Hmean. exists m, i. split; [exact Hm|]. split; [exact Hi|].
+  apply target_meaning. eauto.
+Qed.
 
 (* ---- name sets *)
-Lemma names_spec_nil : forall G, names_spec G [] ([], []).
-Proof. intro G; split; intro x; cbn; (split; [intros [] | intros (j & [] & _)]). Qed.
+Ltac iff_tac :=
+  let HH := fresh "HH" in
+  split; intro HH; repeat (destruct HH as [HH|HH]); subst; auto; try discriminate;
+  try (inversion HH; subst; auto); try contradiction.
 
-Lemma names_spec_snoc : forall G done acc j A' K',
-  names_spec G done acc ->
-  (forall q, In q A' <-> In q (fst acc) \/ granted_qualifier j = Some q) ->
-  (forall n, In n K' <-> In n (snd acc) \/ In n (G j)) ->
-  names_spec G (done ++ [j]) (A', K').
+Definition names_spec (f : fpath) (imps : list import) (acc : names) : Prop :=
+  (forall q, In q (fst acc) <-> exists j, In j imps /\ granted_qualifier fs root f j = Some q) /\
+  (forall n, In n (snd acc) <-> exists j, In j imps /\ In n (granted_bare fs root f j)).
+
+Lemma names_spec_nil : forall f, names_spec f [] ([], []).
+Proof. intro f; split; intro x; cbn; (split; [intros [] | intros (j & [] & _)]). Qed.
+
+Lemma names_spec_snoc : forall f done acc j A' K',
+  names_spec f done acc ->
+  (forall q, In q A' <-> In q (fst acc) \/ granted_qualifier fs root f j = Some q) ->
+  (forall n, In n K' <-> In n (snd acc) \/ In n (granted_bare fs root f j)) ->
+  names_spec f (done ++ [j]) (A', K').
 Proof.
-  intros G done acc j A' K' [H1 H2] HA HK. split; cbn [fst snd].
+  intros f done acc j A' K' [H1 H2] HA HK. split; cbn [fst snd].
   - intro q. rewrite HA, H1. split.
     + intros [(x & Hx & Hq)|Hq]; [exists x | exists j]; split; auto; apply in_or_app; [left | right; left]; auto.
     + intros (x & Hx & Hq). apply in_app_or in Hx as [Hx|[<-|[]]]; [left; eauto | right; exact Hq].
@@ -342,39 +370,64 @@ Proof.
     + intros (x & Hx & Hq). apply in_app_or in Hx as [Hx|[<-|[]]]; [left; eauto | right; exact Hq].
 Qed.
 
-Lemma contrib_mod_spec : forall file done acc j ld info g mg,
-  names_spec (granted_bare_nested fs file) done acc ->
-  lookup (i_path j) ld = Some info -> mi_exports info = pub_names mg ->
-  target fs file j = Some g -> find_file fs g = Some mg ->
-  names_spec (granted_bare_nested fs file) (done ++ [j]) (contrib_mod acc j (lres_of j) ld).
+(* the name sets after one more import, for the module loop (contrib_mod) *)
+Lemma contrib_mod_spec : forall f done acc j ld g fm info mg,
+  names_spec f done acc ->
+  meaning fs root f j = Some (g, fm) -> lookup g ld = Some info -> mi_exports info = pub_names mg ->
+  find_file fs g = Some mg -> (forall l, i_form j = FSymbols l -> l <> []) ->
+  names_spec f (done ++ [j])
+    (contrib_mod acc j (lres_of {| i_path := i_path j; i_form := fm |}) (module_for fs root (dir_of f) j ld)).
 Proof.
-  intros file done acc j ld info g mg Hs Hl He Ht Hg.
-  unfold contrib_mod. rewrite Hl, He.
-  assert (HG : granted_bare_nested fs file j =
-               match i_form j with FModule | FWildcard => pub_names mg | FSymbols l => [hd 0 l] | FAlias _ => [] end).
-  { unfold granted_bare_nested. rewrite Ht, Hg. reflexivity. }
-  unfold lres_of.
-  destruct (i_form j) as [|a|l|] eqn:Ef; cbn [add_lres fst snd];
-    apply (names_spec_snoc _ done acc j _ _ Hs); unfold granted_qualifier; rewrite ?Ef, ?HG;
-    intro x; cbn [In]; rewrite ?in_app_iff; cbn [In].
-  - split; [intros [<-|H']; auto | intros [H'|H']; [auto | inversion H'; auto]].
-  - tauto.
-  - split; [intros [<-|H']; auto | intros [H'|H']; [auto | inversion H'; auto]].
-  - tauto.
-  - split; [auto | intros [H'|H']; [auto | discriminate]].
-  - tauto.
-  - split; [intros [<-|H']; auto | intros [H'|H']; [auto | inversion H'; auto]].
-  - tauto.
+  intros f done acc j ld g fm info mg Hs Hmean Hl He Hg Hne.
+  destruct (meaning_cases _ _ _ _ _ _ Hmean) as (Hstd & _ & [[Hd ->]|[Hd ->]]).
+  - (* the path names a module *)
+    assert (HG : granted_bare fs root f j =
+                 match i_form j with FModule | FWildcard => pub_names mg | FSymbols l => l | FAlias _ => [] end).
+    { unfold granted_bare. rewrite Hmean, Hg. reflexivity. }
+    assert (HQ : granted_qualifier fs root f j =
+                 match i_form j with FModule | FWildcard => Some (last_seg (i_path j)) | FAlias a => Some a | FSymbols _ => None end).
+    { unfold granted_qualifier. rewrite Hstd, Hmean. destruct (i_form j); reflexivity. }
+    unfold contrib_mod, module_for. rewrite Hd, Hl, He. unfold lres_of. cbn [i_form i_path].
+    destruct (i_form j) as [|a|l|] eqn:Ef; cbn [add_lres fst snd];
+      apply (names_spec_snoc _ done acc j _ _ Hs); rewrite ?HG, ?HQ; clear HG HQ;
+      intro x; cbn [In]; rewrite ?in_app_iff; cbn [In].
+    all: try solve [iff_tac].
+    iff_tac. right. destruct l as [|y l']; [exfalso; eapply Hne; eauto | left; reflexivity].
+  - (* `needs m.s`: one selected symbol *)
+    assert (HG : granted_bare fs root f j = [last_seg (i_path j)]).
+    { unfold granted_bare. rewrite Hmean, Hg. reflexivity. }
+    assert (HQ : granted_qualifier fs root f j = None).
+    { unfold granted_qualifier. rewrite Hstd, Hmean. reflexivity. }
+    unfold contrib_mod, module_for. rewrite Hd. unfold lres_of. cbn [i_form i_path hd add_lres fst snd].
+    apply (names_spec_snoc _ done acc j _ _ Hs); rewrite ?HG, ?HQ; clear HG HQ; intro x; cbn [In fst snd]; iff_tac.
+Qed.
+
+Lemma contrib_entry_spec : forall f done acc orig j ld g fm info mg acc' orig',
+  names_spec f done acc ->
+  meaning fs root f j = Some (g, fm) -> lookup g ld = Some info -> mi_exports info = pub_names mg ->
+  find_file fs g = Some mg -> (forall l, i_form j = FSymbols l -> l <> []) ->
+  contrib_entry acc orig j (lres_of {| i_path := i_path j; i_form := fm |}) (module_for fs root (dir_of f) j ld)
+    = Some (acc', orig') ->
+  names_spec f (done ++ [j]) acc'.
+Proof.
+  intros f done acc orig j ld g fm info mg acc' orig' Hs Hmean Hl He Hg Hne Hc.
+  pose proof (contrib_mod_spec f done acc j ld g fm info mg Hs Hmean Hl He Hg Hne) as Hm.
+  assert (Heq : acc' = contrib_mod acc j (lres_of {| i_path := i_path j; i_form := fm |}) (module_for fs root (dir_of f) j ld)).
+  { unfold contrib_entry, contrib_mod in *.
+    destruct (module_for fs root (dir_of f) j ld) as [inf|]; [| inversion Hc; reflexivity].
+    destruct (i_form j); try (inversion Hc; reflexivity).
+    destruct (inter_nonempty (mi_exports inf) orig); [discriminate | inversion Hc; reflexivity]. }
+  rewrite Heq; exact Hm.
 Qed.
 
 Lemma go_mod_v : forall ld file m, vgood ld -> reachable fs E file -> find_file fs file = Some m ->
   forall imps done s acc, done ++ imps = m_imports m -> inv s -> base s = dir_of file ->
   (forall j, In j done -> is_std (i_path j) = false -> loaded_as file j s) ->
-  (no_std_imports m -> names_spec (granted_bare_nested fs file) done acc) ->
-  match go_mod ld imps s acc with
+  (no_std_imports m -> nonempty_symbols m -> names_spec file done acc) ->
+  match go_mod fs root ld imps s acc with
   | Ok (s2, acc2) => frame s s2 /\
       (forall j, In j (m_imports m) -> is_std (i_path j) = false -> loaded_as file j s2) /\
-      (no_std_imports m -> names_spec (granted_bare_nested fs file) (m_imports m) acc2)
+      (no_std_imports m -> nonempty_symbols m -> names_spec file (m_imports m) acc2)
   | _ => True
   end.
 Proof.
@@ -390,203 +443,174 @@ Proof.
     { intros x Hx Hstd. apply in_app_or in Hx as [Hx|[<-|[]]].
       - eapply loaded_as_frame; eauto.
       - auto. }
-    assert (Hacc2 : no_std_imports m -> names_spec (granted_bare_nested fs file) (done ++ [j])
-                                                   (contrib_mod acc j (lres_of j) (loaded s'))).
-    { intro Hns. destruct (Htj (Hns j Hjin)) as (g & info & Ht & _ & Hl & Hfi).
-      destruct (v_info _ Hi' _ _ Hl) as (mg & Hmg & Hex). rewrite Hfi in Hmg.
+    assert (Hacc2 : no_std_imports m -> nonempty_symbols m ->
+              names_spec file (done ++ [j]) (contrib_mod acc j (lres_spec file j) (module_for fs root (base s') j (loaded s')))).
+    { intros Hns Hne. destruct (Htj (Hns j Hjin)) as (g & fm & info & Hmean & _ & Hl & _).
+      destruct (v_info _ Hi' _ _ Hl) as (_ & mg & Hmg & Hex).
+      unfold lres_spec. rewrite Hmean, Hb2.
       eapply contrib_mod_spec; eauto. }
-    pose proof (IH (done ++ [j]) s' (contrib_mod acc j (lres_of j) (loaded s')) Hsplit2 Hi' Hb2 Hdone2 Hacc2) as Hrest.
-    destruct (go_mod ld r s' (contrib_mod acc j (lres_of j) (loaded s'))) as [[s2 a2]| |]; auto.
+    pose proof (IH (done ++ [j]) s' _ Hsplit2 Hi' Hb2 Hdone2 Hacc2) as Hrest.
+    destruct (go_mod fs root ld r s' _) as [[s2 a2]| |]; auto.
     destruct Hrest as (Hfr2 & Hall & Hnames). split; [eapply frame_trans; eauto | auto].
 Qed.
 
-Lemma push_inv : forall cur mc i file m st,
+Lemma push_inv : forall cur mc i file fm m st nm,
   reachable fs E cur -> find_file fs cur = Some mc -> In i (m_imports mc) ->
-  is_std (i_path i) = false -> inv st ->
-  ~ In (i_path i) (stack st) -> lookup (i_path i) (loaded st) = None ->
-  target fs cur i = Some file -> find_file fs file = Some m ->
-  inv {| loaded := (i_path i, {| mi_file := file; mi_exports := pub_names m; mi_name := last_seg (i_path i) |}) :: loaded st;
-         stack := i_path i :: stack st; base := dir_of file; ns := ns st; events := events st |}.
+  meaning fs root cur i = Some (file, fm) -> inv st ->
+  ~ In file (stack st) -> lookup file (loaded st) = None -> find_file fs file = Some m ->
+  inv {| loaded := (file, {| mi_file := file; mi_exports := pub_names m; mi_name := nm |}) :: loaded st;
+         stack := file :: stack st; base := dir_of file; ns := ns st; events := events st |}.
 Proof.
-  intros cur mc i file m st Hr Hmc Hi Hstd Hinv Hns Hnl Ht Hm.
-  pose proof (imp_of_file cur mc i Hmc Hi Hstd) as Himp.
-  assert (Hkf : key_of (i_path i) file) by (exists cur, i; auto).
+  intros cur mc i file fm m st nm Hr Hmc Hi Hmean Hinv Hns Hnl Hm.
+  pose proof (edge_of_meaning cur mc i file fm Hmc Hi Hmean) as Hedge.
   split; cbn.
-    - constructor; [exact Hns | apply (v_nodup _ Hinv)].
-    - intros k [<-|Hk]; unfold has_key.
-      + rewrite lookup_cons_eq; discriminate.
-      + apply has_key_cons, (v_stack _ Hinv), Hk.
-    - intros k inf. destruct (key_eqb k (i_path i)) eqn:Ek.
-      + apply key_eqb_eq in Ek; subst k. intro H; inversion H; subst inf. exact Hkf.
-      + apply (v_key _ Hinv).
-    - intros k inf. destruct (key_eqb k (i_path i)) eqn:Ek.
-      + apply key_eqb_eq in Ek; subst k. intros _; left; left; reflexivity.
-      + intro H. destruct (v_done _ Hinv k inf H) as [H1|H1]; [left; right; exact H1 | right; exact H1].
-    - apply (v_tnodup _ Hinv).
-    - intros g Hg. destruct (v_towner _ Hinv g Hg) as (k & inf & Hl & Hfi & Hnk).
-      exists k, inf. assert (k <> i_path i) by (intro; subst k; congruence).
-      split; [apply key_eqb_neq in H; rewrite H; exact Hl|]. split; [exact Hfi|].
-      intros [Heq|Hin]; [apply key_eqb_neq in H; congruence | contradiction].
-    - apply (v_post _ Hinv).
-    - intros k inf. destruct (key_eqb k (i_path i)) eqn:Ek.
-      + intro H; inversion H; subst inf. exists m; auto.
-      + apply (v_info _ Hinv).
-    - apply (v_evs _ Hinv). Qed.
+  - constructor; [exact Hns | apply (v_nodup _ Hinv)].
+  - intros k [<-|Hk]; unfold has_key.
+    + rewrite lookup_cons_eq; discriminate.
+    + apply has_key_cons, (v_stack _ Hinv), Hk.
+  - intros k inf. destruct (key_eqb k file) eqn:Ek.
+    + apply key_eqb_eq in Ek; subst k. intros _. eauto.
+    + apply (v_key _ Hinv).
+  - intros k inf. destruct (key_eqb k file) eqn:Ek.
+    + apply key_eqb_eq in Ek; subst k. intros _; left; left; reflexivity.
+    + intro H. destruct (v_done _ Hinv k inf H) as [H1|H1]; [left; right; exact H1 | right; exact H1].
+  - apply (v_tnodup _ Hinv).
+  - intros g Hg. destruct (v_towner _ Hinv g Hg) as (Hk & Hnk).
+    assert (g <> file) by (intro; subst g; unfold has_key in Hk; congruence).
+    split; [apply has_key_cons; exact Hk | intros [Heq|Hin]; [congruence | contradiction]].
+  - apply (v_post _ Hinv).
+  - intros k inf. destruct (key_eqb k file) eqn:Ek.
+    + apply key_eqb_eq in Ek; subst k. intro H; inversion H; subst inf. split; [reflexivity | exists m; auto].
+    + apply (v_info _ Hinv).
+  - apply (v_evs _ Hinv).
+Qed.
 
-Lemma compile_v : forall ld cur mc i file m st,
+Lemma compile_v : forall ld cur mc i file fm m st,
   vgood ld -> reachable fs E cur -> find_file fs cur = Some mc -> In i (m_imports mc) ->
-  is_std (i_path i) = false -> i_path i <> [] -> inv st -> base st = dir_of cur ->
-  ~ In (i_path i) (stack st) -> lookup (i_path i) (loaded st) = None ->
-  target fs cur i = Some file -> find_file fs file = Some m ->
-  vpost cur i st (compile ld file (i_path i) None i m st).
+  meaning fs root cur i = Some (file, fm) -> i_path i <> [] -> inv st -> base st = dir_of cur ->
+  ~ In file (stack st) -> lookup file (loaded st) = None -> find_file fs file = Some m ->
+  forall eimp, i_form eimp = fm -> i_path eimp <> [] -> lres_of eimp = lres_spec cur i ->
+  vpost cur i st (compile fs root ld file eimp m st).
 Proof.
-  intros ld cur mc i file m st Hld Hr Hmc Hi Hstd Hne Hinv Hb Hns Hnl Ht Hm.
+  intros ld cur mc i file fm m st Hld Hr Hmc Hi Hmean Hne Hinv Hb Hns Hnl Hm eimp Hef Hep Hlr.
   unfold compile.
   set (info := {| mi_file := file; mi_exports := pub_names m; mi_name := _ |}).
-  set (st1 := {| loaded := (i_path i, info) :: loaded st; stack := i_path i :: stack st;
+  set (st1 := {| loaded := (file, info) :: loaded st; stack := file :: stack st;
                  base := dir_of file; ns := ns st; events := events st |}).
-  pose proof (imp_of_file cur mc i Hmc Hi Hstd) as Himp.
-  assert (Hedge : edge fs cur file) by (exists mc, i; auto).
-  assert (Hrf : reachable fs E file) by (eapply r_step; eauto).
-  assert (Hkf : key_of (i_path i) file) by (exists cur, i; auto).
-  assert (Hinv1 : inv st1) by exact (push_inv cur mc i file m st Hr Hmc Hi Hstd Hinv Hns Hnl Ht Hm).
+  assert (Hrf : reachable fs E file) by (eapply r_step; [exact Hr | eapply edge_of_meaning; eauto]).
+  assert (Hinv1 : inv st1) by exact (push_inv cur mc i file fm m st _ Hr Hmc Hi Hmean Hinv Hns Hnl Hm).
   pose proof (go_mod_v ld file m Hld Hrf Hm (m_imports m) [] st1 ([], []) eq_refl Hinv1 eq_refl
-                (fun j Hj => match Hj with end) (fun _ => names_spec_nil _)) as Hg.
-  destruct (go_mod ld (m_imports m) st1 ([], [])) as [[st2 acc]| |]; auto.
+                (fun j Hj => match Hj with end) (fun _ _ => names_spec_nil _)) as Hg.
+  destruct (go_mod fs root ld (m_imports m) st1 ([], [])) as [[st2 acc]| |]; auto.
   destruct Hg as ((Hi2 & Hs2 & Hb2 & Hm2 & [ext Hext]) & Hall & Hnames).
-  match goal with |- context [bind_exports ?a ?b ?c] => destruct (bind_exports a b c) as [s2|] end; cbn; auto.
-  set (ev := {| ev_file := file; ev_key := i_path i; ev_aliases := fst acc; ev_known := _; ev_ns := _ |}).
+  destruct (bind_exports eimp (pub_names m) (write_defs file m (ns st2))) as [s2|] eqn:Hbind; cbn; auto.
+  set (ev := {| ev_file := file; ev_key := i_path eimp; ev_aliases := fst acc; ev_known := _; ev_ns := _ |}).
   set (st' := {| loaded := loaded st2; stack := tl (stack st2); base := base st; ns := s2; events := events st2 ++ [ev] |}).
   assert (Htr : trace st' = trace st2 ++ [file]) by (unfold trace, st'; cbn; rewrite map_app; reflexivity).
   assert (Hstk : stack st' = stack st) by (unfold st'; cbn; rewrite Hs2; reflexivity).
-  assert (Hlp : lookup (i_path i) (loaded st2) = Some info) by (apply Hm2; cbn; apply lookup_cons_eq).
+  assert (Hlp : lookup file (loaded st2) = Some info) by (apply Hm2; cbn; apply lookup_cons_eq).
   assert (Hnotin : ~ In file (trace st2)).
-  { intro Hin. destruct (v_towner _ Hi2 file Hin) as (k & inf & Hl & Hfi & Hnk).
-    destruct (v_key _ Hi2 k inf Hl) as (f' & i' & _ & Himp' & Hp' & Ht'). rewrite Hfi in Ht'.
-    assert (i_path i' = i_path i) by (eapply HI; eauto). apply Hnk. rewrite Hs2. left. congruence. }
+  { intro Hin. destruct (v_towner _ Hi2 file Hin) as (_ & Hnk). apply Hnk. rewrite Hs2. left; reflexivity. }
   assert (Hinv' : inv st').
   { split.
     - rewrite Hstk; apply (v_nodup _ Hinv).
     - rewrite Hstk. intros k Hk. unfold st'; cbn. pose proof (v_stack _ Hinv k Hk) as Hh.
       unfold has_key in *. destruct (lookup k (loaded st)) as [inf|] eqn:El; [| contradiction].
       assert (lookup k (loaded st1) = Some inf).
-      { cbn. destruct (key_eqb k (i_path i)) eqn:Ek; [apply key_eqb_eq in Ek; subst; congruence | exact El]. }
+      { cbn. destruct (key_eqb k file) eqn:Ek; [apply key_eqb_eq in Ek; subst; congruence | exact El]. }
       rewrite (Hm2 _ _ H); discriminate.
     - unfold st'; cbn. apply (v_key _ Hi2).
     - rewrite Hstk, Htr. unfold st'; cbn. intros k inf Hl.
       destruct (v_done _ Hi2 k inf Hl) as [Hk|Hk].
       + rewrite Hs2 in Hk. destruct Hk as [<-|Hk]; [| left; exact Hk].
-        right. rewrite Hlp in Hl; inversion Hl; subst inf. apply in_or_app; right; left; reflexivity.
+        right. apply in_or_app; right; left; reflexivity.
       + right; apply in_or_app; left; exact Hk.
     - rewrite Htr. apply NoDup_snoc; [apply (v_tnodup _ Hi2) | exact Hnotin].
     - rewrite Hstk, Htr. unfold st'; cbn. intros g Hg. apply in_app_or in Hg as [Hg|[<-|[]]].
-      + destruct (v_towner _ Hi2 g Hg) as (k & inf & Hl & Hfi & Hnk).
-        exists k, inf. split; [exact Hl|]. split; [exact Hfi|].
-        intro Hk. apply Hnk. rewrite Hs2. right; exact Hk.
-      + exists (i_path i), info. auto.
+      + destruct (v_towner _ Hi2 g Hg) as (Hk & Hnk). split; [exact Hk|].
+        intro Hin. apply Hnk. rewrite Hs2. right; exact Hin.
+      + split; [unfold has_key; rewrite Hlp; discriminate | exact Hns].
     - rewrite Htr. intros l1 g l2 Heq h Hed.
       apply app_snoc_split in Heq as [(-> & -> & ->)|(l2' & -> & Heq)].
       + destruct Hed as (m' & j & Hm' & Hj & Htj). rewrite Hm in Hm'; inversion Hm'; subst m'.
-        destruct (Hall j Hj (target_nonstd _ _ _ Htj)) as (g' & inf & Hg' & Hin & _). congruence.
+        apply target_meaning in Htj as [fmj Hmj].
+        destruct (meaning_cases _ _ _ _ _ _ Hmj) as (Hstdj & _).
+        destruct (Hall j Hj Hstdj) as (g' & fm' & inf & Hg' & Hin & _). fold root in Hmj. congruence.
       + eapply (v_post _ Hi2); eauto.
     - unfold st'; cbn. apply (v_info _ Hi2).
     - unfold st'; cbn. intros e He. apply in_app_or in He as [He|[<-|[]]]; [apply (v_evs _ Hi2); exact He|].
-      split; [exact Hne|]. cbn. intros m' Hm' Hnostd. rewrite Hm in Hm'; inversion Hm'; subst m'.
-      destruct (Hnames Hnostd) as [HA HK]. split; [exact HA|].
+      split; [exact Hep|]. split; [| exact (loaded_as_pub st2 file m Hi2 Hall Hm)].
+      intros m' Hm' Hnostd Hnes. cbn in Hm'. rewrite Hm in Hm'; inversion Hm'; subst m'.
+      destruct (Hnames Hnostd Hnes) as [HA HK]. split; cbn [ev_aliases ev_known ev ev_file]; [exact HA|].
       intro n. rewrite in_app_iff, HK. reflexivity. }
   split.
   - split; [exact Hinv'|]. split; [exact Hstk|]. split; [reflexivity|]. split.
     + intros k inf Hl. unfold st'; cbn. apply Hm2. cbn.
-      destruct (key_eqb k (i_path i)) eqn:Ek; [apply key_eqb_eq in Ek; subst; congruence | exact Hl].
+      destruct (key_eqb k file) eqn:Ek; [apply key_eqb_eq in Ek; subst; congruence | exact Hl].
     + exists (ext ++ [file]). change (trace st' = trace st ++ ext ++ [file]). rewrite Htr, Hext. unfold st1, trace; cbn. rewrite app_assoc; reflexivity.
-  - split; [reflexivity|]. intros _. exists file, info. split; [exact Ht|].
+  - split; [exact Hlr|]. intros _. exists file, fm, info. split; [exact Hmean|].
     split; [change (In file (trace st')); rewrite Htr; apply in_or_app; right; left; reflexivity|].
-    split; [exact Hlp | reflexivity].
+    split; [exact Hlp|].
+    (* the selected symbols were checked against the exports by register_exports *)
+    intros l s Hfm Hs. unfold bind_exports in Hbind. rewrite Hef, Hfm in Hbind.
+    destruct (check_syms l (pub_names m) (write_defs file m (ns st2))) eqn:Hc; [| discriminate].
+    cbn. eapply check_syms_in; eauto.
 Qed.
 
-Lemma load_step_v : forall ld, vgood ld -> vgood (load_step fs ld).
+Lemma load_step_v : forall ld, vgood ld -> vgood (load_step fs root ld).
 Proof.
   intros ld Hld cur mc i st Hr Hmc Hi Hinv Hb. unfold load_step. cbv zeta.
   remember (i_path i) as p eqn:Ep in |- *. symmetry in Ep. destruct p as [|x p']; [exact I|].
   destruct (is_std (x :: p')) eqn:Estd.
-  { cbn. split; [apply frame_refl; exact Hinv|]. split; [reflexivity|]. rewrite Ep, Estd; discriminate. }
+  { cbn. split; [apply frame_refl; exact Hinv|]. split.
+    - unfold lres_spec, meaning. rewrite Ep, Estd. reflexivity.
+    - rewrite Ep, Estd; discriminate. }
   assert (Hstd : is_std (i_path i) = false) by (rewrite Ep; exact Estd).
-  pose proof (imp_of_file cur mc i Hmc Hi Hstd) as Himp.
-  destruct (mem_key (x :: p') (stack st)) eqn:Emem; [exact I|].
+  rewrite Hb. destruct (resolve_fb fs root (dir_of cur) (x :: p')) as [[[file actual] sym]|] eqn:Er; [| exact I].
+  set (eimp := match sym with Some s => {| i_path := actual; i_form := FSymbols [s] |} | None => i end).
+  set (fm := match sym with Some s => FSymbols [s] | None => i_form i end).
+  assert (Hmean : meaning fs root cur i = Some (file, fm)).
+  { unfold meaning, fm. rewrite Hstd, Ep, Er. destruct sym; reflexivity. }
+  assert (Hef : i_form eimp = fm) by (unfold eimp, fm; destruct sym; reflexivity).
+  assert (Hlr : lres_of eimp = lres_spec cur i).
+  { unfold lres_spec. rewrite Hmean. unfold eimp, fm, lres_of. destruct sym; reflexivity. }
+  assert (Hep : i_path eimp <> []).
+  { unfold eimp. destruct (resolve_fb_shape _ _ _ _ _ _ _ Er) as [_ [(_ & -> & ->)|(_ & _ & -> & Hne)]]; cbn.
+    - rewrite Ep; discriminate.
+    - exact Hne. }
+  destruct (mem_key file (stack st)) eqn:Emem; [exact I|].
   apply mem_key_false in Emem.
-  destruct (lookup (x :: p') (loaded st)) as [info|] eqn:El.
-  - destruct (bind_exports i (mi_exports info) (ns st)) as [s|]; cbn; [| exact I].
+  destruct (lookup file (loaded st)) as [info|] eqn:El.
+  - destruct (bind_exports eimp (mi_exports info) (ns st)) as [s|] eqn:Hbind; cbn; [| exact I].
     assert (Hinv' : inv (set_ns st s)) by (destruct Hinv; split; assumption).
     split.
     + split; [exact Hinv'|]. split; [reflexivity|]. split; [reflexivity|]. split.
       * intros k inf Hk; exact Hk.
       * exists []; rewrite app_nil_r; reflexivity.
-    + split; [reflexivity|].
-      intros _. destruct (v_key _ Hinv _ _ El) as (f' & i' & Hr' & Himp' & Hp' & Ht').
-      exists (mi_file info), info. split.
-      * rewrite <- Ht'. apply HF; auto. congruence.
-      * split; [destruct (v_done _ Hinv _ _ El) as [Hk|Hk]; [contradiction | exact Hk]|].
-        split; [rewrite Ep; exact El | reflexivity].
-  - rewrite Hb. destruct (resolve_fb fs (dir_of cur) (x :: p')) as [[[file actual] sym]|] eqn:Er; [| exact I].
-    rewrite <- Ep in Er. pose proof (HP cur i Himp _ _ _ Er) as ->.
-    pose proof Er as Er'. apply resolve_fb_shape in Er' as [[m Hm] [[-> _]|[_ Hbad]]]; [| discriminate].
-    rewrite Hm. rewrite <- Ep in *.
-    eapply compile_v; eauto.
-    + rewrite Ep; discriminate.
-    + unfold target. rewrite Hstd, Er. reflexivity.
+    + split; [exact Hlr|].
+      intros _. exists file, fm, info. split; [exact Hmean|].
+      split; [destruct (v_done _ Hinv _ _ El) as [Hk|Hk]; [contradiction | exact Hk]|].
+      split; [exact El|].
+      intros l s0 Hfm Hs. unfold bind_exports in Hbind. rewrite Hef, Hfm in Hbind.
+      destruct (check_syms l (mi_exports info) (ns st)) eqn:Hc; [| discriminate].
+      eapply check_syms_in; eauto.
+  - pose proof Er as Er'. apply resolve_fb_shape in Er' as [[m Hm] _]. rewrite Hm.
+    eapply compile_v; eauto. rewrite Ep; discriminate.
 Qed.
 
-Lemma load_v : forall n, vgood (load fs n).
+Lemma load_v : forall n, vgood (load fs root n).
 Proof.
   induction n as [|n IH]; [intros cur m i st _ _ _ _ _; exact I | cbn [load]; apply load_step_v; exact IH].
-Qed.
-
-Lemma contrib_entry_spec : forall done acc orig j ld info g mg acc' orig',
-  names_spec (granted_bare fs E) done acc ->
-  lookup (i_path j) ld = Some info -> mi_exports info = pub_names mg ->
-  target fs E j = Some g -> find_file fs g = Some mg ->
-  (forall l, i_form j = FSymbols l -> l <> []) ->
-  contrib_entry acc orig j (lres_of j) ld = Some (acc', orig') ->
-  names_spec (granted_bare fs E) (done ++ [j]) acc'.
-Proof.
-  intros done acc orig j ld info g mg acc' orig' Hs Hl He Ht Hg Hne.
-  unfold contrib_entry. rewrite Hl, He.
-  assert (HG : granted_bare fs E j =
-               match i_form j with FModule | FWildcard => pub_names mg | FSymbols l => l | FAlias _ => [] end).
-  { unfold granted_bare. rewrite Ht, Hg. reflexivity. }
-  unfold lres_of, granted_qualifier in *.
-  destruct (i_form j) as [|a|l|] eqn:Ef; cbn [add_lres fst snd].
-  - destruct (inter_nonempty (pub_names mg) orig); [discriminate|]. intro H; inversion H; subst acc' orig'.
-    apply (names_spec_snoc _ done acc j _ _ Hs); unfold granted_qualifier; rewrite ?Ef, ?HG; cbn [fst snd];
-      intro x; cbn [In]; rewrite ?in_app_iff.
-    + split; [intros [<-|H']; auto | intros [H'|H']; [auto | inversion H'; auto]].
-    + tauto.
-  - intro H; inversion H; subst acc' orig'.
-    apply (names_spec_snoc _ done acc j _ _ Hs); unfold granted_qualifier; rewrite ?Ef, ?HG; cbn [fst snd];
-      intro x; cbn [In].
-    + split; [intros [<-|H']; auto | intros [H'|H']; [auto | inversion H'; auto]].
-    + tauto.
-  - intro H; inversion H; subst acc' orig'.
-    apply (names_spec_snoc _ done acc j _ _ Hs); unfold granted_qualifier; rewrite ?Ef, ?HG; cbn [fst snd];
-      intro x; cbn [In]; rewrite ?in_app_iff; cbn [In].
-    + split; [auto | intros [H'|H']; [auto | discriminate]].
-    + split; [intros [H'|[<-|H']]; auto | tauto].
-      right. destruct l as [|y l']; [exfalso; eapply Hne; eauto | left; reflexivity].
-  - intro H; inversion H; subst acc' orig'.
-    apply (names_spec_snoc _ done acc j _ _ Hs); unfold granted_qualifier; rewrite ?Ef, ?HG; cbn [fst snd];
-      intro x; cbn [In]; rewrite ?in_app_iff.
-    + split; [intros [<-|H']; auto | intros [H'|H']; [auto | inversion H'; auto]].
-    + tauto.
 Qed.
 
 Lemma entry_go_v : forall n me, find_file fs E = Some me ->
   forall imps done s acc orig, done ++ imps = m_imports me -> inv s -> base s = dir_of E ->
   (forall j, In j done -> is_std (i_path j) = false -> loaded_as E j s) ->
-  (no_std_imports me -> nonempty_symbols me -> names_spec (granted_bare fs E) done acc) ->
-  match entry_go fs n imps s acc orig with
+  (no_std_imports me -> nonempty_symbols me -> names_spec E done acc) ->
+  match entry_go fs root n imps s acc orig with
   | Ok (s2, acc2) => frame s s2 /\
       (forall j, In j (m_imports me) -> is_std (i_path j) = false -> loaded_as E j s2) /\
-      (no_std_imports me -> nonempty_symbols me -> names_spec (granted_bare fs E) (m_imports me) acc2)
+      (no_std_imports me -> nonempty_symbols me -> names_spec E (m_imports me) acc2)
   | _ => True
   end.
 Proof.
@@ -594,32 +618,34 @@ Proof.
   - rewrite app_nil_r in Hsplit; subst done. split; [apply frame_refl; exact Hinv | auto].
   - assert (Hjin : In j (m_imports me)) by (rewrite <- Hsplit; apply in_or_app; right; left; reflexivity).
     pose proof (load_v n E me j s (r_refl fs E) Hme Hjin Hinv Hb) as Hj.
-    destruct (load fs n j s) as [[s' lr]| |]; cbn in Hj; auto.
+    destruct (load fs root n j s) as [[s' lr]| |]; cbn in Hj; auto.
     destruct Hj as (Hfr & -> & Htj). pose proof Hfr as (Hi' & Hs' & Hb' & Hm' & He').
-    destruct (contrib_entry acc orig j (lres_of j) (loaded s')) as [[acc' orig']|] eqn:Ec; [| exact I].
+    destruct (contrib_entry acc orig j (lres_spec E j) (module_for fs root (base s') j (loaded s')))
+      as [[acc' orig']|] eqn:Ec; [| exact I].
     assert (Hb2 : base s' = dir_of E) by congruence.
     assert (Hsplit2 : (done ++ [j]) ++ r = m_imports me) by (rewrite <- app_assoc; exact Hsplit).
     assert (Hdone2 : forall x, In x (done ++ [j]) -> is_std (i_path x) = false -> loaded_as E x s').
     { intros x Hx Hstd. apply in_app_or in Hx as [Hx|[<-|[]]].
       - eapply loaded_as_frame; eauto.
       - auto. }
-    assert (Hacc2 : no_std_imports me -> nonempty_symbols me -> names_spec (granted_bare fs E) (done ++ [j]) acc').
-    { intros Hns Hnes. destruct (Htj (Hns j Hjin)) as (g & info & Ht & _ & Hl & Hfi).
-      destruct (v_info _ Hi' _ _ Hl) as (mg & Hmg & Hex). rewrite Hfi in Hmg.
+    assert (Hacc2 : no_std_imports me -> nonempty_symbols me -> names_spec E (done ++ [j]) acc').
+    { intros Hns Hnes. destruct (Htj (Hns j Hjin)) as (g & fm & info & Hmean & _ & Hl & _).
+      destruct (v_info _ Hi' _ _ Hl) as (_ & mg & Hmg & Hex).
+      unfold lres_spec in Ec. rewrite Hmean, Hb2 in Ec.
       eapply contrib_entry_spec; eauto. }
     pose proof (IH (done ++ [j]) s' acc' orig' Hsplit2 Hi' Hb2 Hdone2 Hacc2) as Hrest.
-    destruct (entry_go fs n r s' acc' orig') as [[s2 a2]| |]; auto.
+    destruct (entry_go fs root n r s' acc' orig') as [[s2 a2]| |]; auto.
     destruct Hrest as (Hfr2 & Hall & Hnames). split; [eapply frame_trans; eauto | auto].
 Qed.
 
-Lemma reach_edge_plus : forall f h, reachable fs E f -> edge fs f h -> path_plus fs E h.
+Lemma reach_edge_plus : forall f h, reachable fs E f -> edge fs E f h -> path_plus fs E E h.
 Proof.
   intros f h Hr; revert h. induction Hr as [|g f Hr IH Hgf]; intros h Hh.
   - apply pp_one; exact Hh.
   - eapply pp_step; [apply IH; exact Hgf | exact Hh].
 Qed.
 
-Lemma po_before : forall l, postorder fs l -> forall g h, path_plus fs g h -> In g l ->
+Lemma po_before : forall l, postorder fs E l -> forall g h, path_plus fs E g h -> In g l ->
   exists l1 l2, l = l1 ++ g :: l2 /\ In h l1.
 Proof.
   intros l Hpo g h Hp; induction Hp as [g h He | g g' h Hp IH He]; intro Hin.
@@ -631,7 +657,7 @@ Proof.
     apply in_or_app; left; assumption.
 Qed.
 
-Lemma po_no_cycle : forall l, postorder fs l -> NoDup l -> forall g, path_plus fs g g -> ~ In g l.
+Lemma po_no_cycle : forall l, postorder fs E l -> NoDup l -> forall g, path_plus fs E g g -> ~ In g l.
 Proof.
   intros l Hpo Hnd g Hp Hin. destruct (po_before l Hpo g g Hp Hin) as (l1 & l2 & -> & Hg).
   apply NoDup_remove_2 in Hnd. apply Hnd. apply in_or_app; left; exact Hg.
@@ -653,26 +679,28 @@ Qed.
 
 Lemma run_trace : forall fuel evs, run fs E fuel = Ok evs ->
   let tr := map ev_file evs in
-  NoDup tr /\ (forall f, In f tr <-> reachable fs E f) /\ postorder fs tr /\ (exists l, tr = l ++ [E]).
+  NoDup tr /\ (forall f, In f tr <-> reachable fs E f) /\ postorder fs E tr /\ (exists l, tr = l ++ [E]).
 Proof.
-  intros fuel evs. unfold run.
+  intros fuel evs. unfold run. fold root.
   destruct (find_file fs E) as [me|] eqn:Hme; [| discriminate].
   pose proof (entry_go_v fuel me Hme (m_imports me) [] (init_state E) ([], []) [] eq_refl init_inv eq_refl
                 (fun j Hj => match Hj with end) (fun _ _ => names_spec_nil _)) as Hg.
-  destruct (entry_go fs fuel (m_imports me) (init_state E) ([], []) []) as [[st acc]| |]; try discriminate.
+  destruct (entry_go fs root fuel (m_imports me) (init_state E) ([], []) []) as [[st acc]| |]; try discriminate.
   destruct Hg as ((Hinv & _ & _ & _ & _) & Hall & _).
   intro Hev; inversion Hev; subst evs; clear Hev. cbv zeta. rewrite map_app. cbn [map ev_file].
   fold (trace st).
-  assert (Hpo : postorder fs (trace st ++ [E])).
+  assert (Hpo : postorder fs E (trace st ++ [E])).
   { intros l1 g l2 Heq h Hed.
     apply app_snoc_split in Heq as [(-> & -> & ->)|(l2' & -> & Heq)].
     - destruct Hed as (m' & j & Hm' & Hj & Htj). rewrite Hme in Hm'; inversion Hm'; subst m'.
-      destruct (Hall j Hj (target_nonstd _ _ _ Htj)) as (g' & inf & Hg' & Hin & _). congruence.
+      apply target_meaning in Htj as [fmj Hmj].
+      destruct (meaning_cases _ _ _ _ _ _ Hmj) as (Hstdj & _).
+      destruct (Hall j Hj Hstdj) as (g' & fm' & inf & Hg' & Hin & _). fold root in Hmj. congruence.
     - eapply (v_post _ Hinv); eauto. }
-  assert (Hreach : forall f, In f (trace st) -> exists f', reachable fs E f' /\ edge fs f' f).
-  { intros f Hf. destruct (v_towner _ Hinv f Hf) as (k & info & Hl & Hfi & _).
-    destruct (v_key _ Hinv k info Hl) as (f' & i' & Hr' & (m' & Hm' & Hi' & Hs') & _ & Ht'). rewrite Hfi in Ht'.
-    exists f'; split; [exact Hr'|]. exists m', i'. auto. }
+  assert (Hreach : forall f, In f (trace st) -> exists f', reachable fs E f' /\ edge fs E f' f).
+  { intros f Hf. destruct (v_towner _ Hinv f Hf) as (Hk & _). unfold has_key in Hk.
+    destruct (lookup f (loaded st)) as [info|] eqn:Hl; [| contradiction].
+    eapply (v_key _ Hinv); eauto. }
   assert (HnE : ~ In E (trace st)).
   { intro HE. destruct (Hreach E HE) as (f' & Hr' & He').
     eapply (po_no_cycle (trace st) (v_post _ Hinv) (v_tnodup _ Hinv) E); [| exact HE].
@@ -688,11 +716,31 @@ Proof.
       apply in_or_app; left. eapply Hpo; eauto.
 Qed.
 
-Lemma run_cycle : forall fuel evs f, run fs E fuel = Ok evs -> reachable fs E f -> path_plus fs f f -> False.
+Lemma run_cycle : forall fuel evs f, run fs E fuel = Ok evs -> reachable fs E f -> path_plus fs E f f -> False.
 Proof.
   intros fuel evs f Hrun Hr Hp. destruct (run_trace fuel evs Hrun) as (Hnd & Hcov & Hpo & _).
   eapply po_no_cycle; eauto. apply Hcov; exact Hr.
 Qed.
+
+(* compile-time name sets of every top level that ran *)
+Lemma run_names : forall fuel evs, run fs E fuel = Ok evs -> forall ev, In ev evs ->
+  names_ok fs E ev /\ selected_are_pub fs E (ev_file ev).
+Proof.
+  intros fuel evs. unfold run. fold root.
+  destruct (find_file fs E) as [me|] eqn:Hme; [| discriminate].
+  pose proof (entry_go_v fuel me Hme (m_imports me) [] (init_state E) ([], []) [] eq_refl init_inv eq_refl
+                (fun j Hj => match Hj with end) (fun _ _ => names_spec_nil _)) as Hg.
+  destruct (entry_go fs root fuel (m_imports me) (init_state E) ([], []) []) as [[st acc]| |]; try discriminate.
+  destruct Hg as ((Hinv & _ & _ & _ & _) & Hall & Hnames).
+  intro Hrun; inversion Hrun; subst evs; clear Hrun.
+  intros ev Hev. apply in_app_or in Hev as [Hev|[<-|[]]].
+  - destruct (v_evs _ Hinv ev Hev) as (_ & H1 & H2). auto.
+  - split; [| exact (loaded_as_pub st E me Hinv Hall Hme)].
+    intros m' Hm' Hns Hne. cbn [ev_file] in Hm'. rewrite Hme in Hm'; inversion Hm'; subst m'.
+    destruct (Hnames Hns Hne) as [HA HK]. split; cbn [ev_aliases ev_known ev_file]; [exact HA|].
+    intro n. rewrite in_app_iff, HK. reflexivity.
+Qed.
+
 (* ---- which error: with every import resolvable and selecting pub symbols only, the loader can
         only fail with CircularDependency (and the entry with SymbolConflict) *)
 Definition bound (g : gname) (s : nsmap) : Prop := ns_get g s <> None.
@@ -781,7 +829,7 @@ Definition egood (ld : loader) : Prop :=
 
 Lemma go_mod_e : forall ld file m, vgood ld -> egood ld -> reachable fs E file -> find_file fs file = Some m ->
   forall imps s acc, incl imps (m_imports m) -> inv s -> base s = dir_of file -> ninv s ->
-  epost s (go_mod ld imps s acc).
+  epost s (go_mod fs root ld imps s acc).
 Proof.
   intros ld file m Hv He Hr Hm imps; induction imps as [|j r IH]; intros s acc Hincl Hinv Hb Hn; cbn.
   - split; [exact Hn | intros g Hg; exact Hg].
@@ -789,47 +837,48 @@ Proof.
     pose proof (He file m j s Hr Hm (Hincl j (or_introl eq_refl)) Hinv Hb Hn) as Hej.
     destruct (ld j s) as [[s' lr]| |]; cbn in *; auto.
     destruct Hvj as ((Hi' & Hs' & Hb' & _) & _). destruct Hej as [Hn' Hmono].
-    pose proof (IH s' (contrib_mod acc j lr (loaded s')) (fun x Hx => Hincl x (or_intror Hx)) Hi' (eq_trans Hb' Hb) Hn') as Hrest.
-    destruct (go_mod ld r s' (contrib_mod acc j lr (loaded s'))) as [[s2 a2]| |]; cbn in *; auto.
+    pose proof (IH s' (contrib_mod acc j lr (module_for fs root (base s') j (loaded s')))
+                  (fun x Hx => Hincl x (or_intror Hx)) Hi' (eq_trans Hb' Hb) Hn') as Hrest.
+    destruct (go_mod fs root ld r s' _) as [[s2 a2]| |]; cbn in *; auto.
     destruct Hrest as [Hn2 Hm2]. split; [exact Hn2 | intros g Hg; apply Hm2, Hmono, Hg].
 Qed.
 
-Lemma compile_e : forall ld cur mc i g mg st,
+Lemma compile_e : forall ld cur mc i g fm mg st eimp,
   vgood ld -> egood ld -> reachable fs E cur -> find_file fs cur = Some mc -> In i (m_imports mc) ->
-  is_std (i_path i) = false -> i_path i <> [] -> inv st -> base st = dir_of cur -> ninv st ->
-  ~ In (i_path i) (stack st) -> lookup (i_path i) (loaded st) = None ->
-  target fs cur i = Some g -> find_file fs g = Some mg ->
-  (forall l s, i_form i = FSymbols l -> In s l -> In s (pub_names mg)) ->
-  epost st (compile ld g (i_path i) None i mg st).
+  meaning fs root cur i = Some (g, fm) -> i_path i <> [] -> inv st -> base st = dir_of cur -> ninv st ->
+  ~ In g (stack st) -> lookup g (loaded st) = None -> find_file fs g = Some mg ->
+  i_form eimp = fm -> i_path eimp <> [] -> lres_of eimp = lres_spec cur i ->
+  (forall l s, fm = FSymbols l -> In s l -> In s (pub_names mg)) ->
+  epost st (compile fs root ld g eimp mg st).
 Proof.
-  intros ld cur mc i g mg st Hv He Hr Hmc Hi Hstd Hne Hinv Hb Hn Emem El Htgt Hmg Hsy.
-  pose proof (push_inv cur mc i g mg st Hr Hmc Hi Hstd Hinv Emem El Htgt Hmg) as Hinv1.
+  intros ld cur mc i g fm mg st eimp Hv He Hr Hmc Hi Hmean Hne Hinv Hb Hn Emem El Hmg Hef Hep Hlr Hsy.
+  pose proof (push_inv cur mc i g fm mg st (last_seg (i_path eimp)) Hr Hmc Hi Hmean Hinv Emem El Hmg) as Hinv1.
   unfold compile.
   set (info := {| mi_file := g; mi_exports := pub_names mg; mi_name := _ |}) in *.
-  set (st1 := {| loaded := (i_path i, info) :: loaded st; stack := i_path i :: stack st;
+  set (st1 := {| loaded := (g, info) :: loaded st; stack := g :: stack st;
                  base := dir_of g; ns := ns st; events := events st |}) in *.
-  assert (Hrg : reachable fs E g) by (eapply r_step; [exact Hr | exists mc, i; auto]).
+  assert (Hrg : reachable fs E g) by (eapply r_step; [exact Hr | eapply edge_of_meaning; eauto]).
   assert (Hn1 : ninv st1).
   { intros k inf Hl Hk n Hin. unfold st1 in *; cbn in *.
-    destruct (key_eqb k (i_path i)) eqn:Ek.
+    destruct (key_eqb k g) eqn:Ek.
     - apply key_eqb_eq in Ek; subst k. exfalso; apply Hk; left; reflexivity.
     - eapply Hn; eauto. }
   pose proof (go_mod_e ld g mg Hv He Hrg Hmg (m_imports mg) st1 ([], []) (fun x Hx => Hx) Hinv1 eq_refl Hn1) as Hge.
   pose proof (go_mod_v ld g mg Hv Hrg Hmg (m_imports mg) [] st1 ([], []) eq_refl Hinv1 eq_refl
-                (fun j Hj => match Hj with end) (fun _ => names_spec_nil _)) as Hgv.
-  destruct (go_mod ld (m_imports mg) st1 ([], [])) as [[st2 acc]| |]; cbn in Hge; auto.
+                (fun j Hj => match Hj with end) (fun _ _ => names_spec_nil _)) as Hgv.
+  destruct (go_mod fs root ld (m_imports mg) st1 ([], [])) as [[st2 acc]| |]; cbn in Hge; auto.
   destruct Hge as [Hn2 Hmono2]. destruct Hgv as ((Hi2 & Hs2 & _ & Hm2 & _) & _).
   set (s1 := write_defs g mg (ns st2)).
-  destruct (bind_exports_some i (pub_names mg) s1) as (s2 & Hs2' & Hmono3).
+  destruct (bind_exports_some eimp (pub_names mg) s1) as (s2 & Hs2' & Hmono3).
   { intros n Hin. destruct (pub_names_defs _ _ Hin) as (d & Hd & <-). apply write_defs_binds; exact Hd. }
-  { exact Hsy. }
+  { intros l n Hf Hin. eapply Hsy; eauto. congruence. }
   rewrite Hs2'. cbn.
   assert (Hw : nsmono (ns st2) s1) by apply write_defs_fold_mono.
   split.
   - intros k inf Hl Hk n Hin. cbn in Hl, Hk |- *. rewrite Hs2 in Hk. cbn in Hk.
-    destruct (key_eqb k (i_path i)) eqn:Ek.
+    destruct (key_eqb k g) eqn:Ek.
     + apply key_eqb_eq in Ek; subst k.
-      assert (Hlp : lookup (i_path i) (loaded st2) = Some info) by (apply Hm2; cbn; apply lookup_cons_eq).
+      assert (Hlp : lookup g (loaded st2) = Some info) by (apply Hm2; cbn; apply lookup_cons_eq).
       rewrite Hlp in Hl; inversion Hl; subst inf. cbn in Hin.
       apply Hmono3. destruct (pub_names_defs _ _ Hin) as (d & Hd & <-). apply write_defs_binds; exact Hd.
     + apply Hmono3, Hw. eapply Hn2; eauto. rewrite Hs2. cbn. intros [Heq|Hin']; [| contradiction].
@@ -837,37 +886,41 @@ Proof.
   - intros x Hx. apply Hmono3, Hw, Hmono2. exact Hx.
 Qed.
 
-Lemma load_step_e : forall ld, vgood ld -> egood ld -> egood (load_step fs ld).
+Lemma load_step_e : forall ld, vgood ld -> egood ld -> egood (load_step fs root ld).
 Proof.
   intros ld Hv He cur mc i st Hr Hmc Hi Hinv Hb Hn. unfold load_step. cbv zeta.
   remember (i_path i) as p eqn:Ep in |- *. symmetry in Ep.
   destruct (is_std p) eqn:Estd.
   { destruct p; [discriminate|]. cbn. split; [exact Hn | intros g Hg; exact Hg]. }
   assert (Hstd : is_std (i_path i) = false) by (rewrite Ep; exact Estd).
-  destruct (HC cur mc i Hr Hmc Hi Hstd) as (Hne & g & mg & Ht & Hmg & Hsy).
+  destruct (HC cur mc i Hr Hmc Hi Hstd) as (Hne & g & fm & mg & Hmean & Hmg & Hsy). fold root in Hmean.
   destruct p as [|x p']; [congruence|].
-  pose proof (imp_of_file cur mc i Hmc Hi Hstd) as Himp.
-  destruct (mem_key (x :: p') (stack st)) eqn:Emem; [reflexivity|].
+  rewrite Hb. pose proof Hmean as Hmean0. unfold meaning in Hmean. rewrite Hstd, Ep in Hmean.
+  destruct (resolve_fb fs root (dir_of cur) (x :: p')) as [[[file actual] sym]|] eqn:Er; [| discriminate].
+  set (eimp := match sym with Some s => {| i_path := actual; i_form := FSymbols [s] |} | None => i end).
+  assert (Hfg : file = g /\ fm = match sym with Some s => FSymbols [s] | None => i_form i end).
+  { destruct sym; inversion Hmean; auto. }
+  destruct Hfg as [-> Hfm].
+  assert (Hef : i_form eimp = fm) by (unfold eimp; rewrite Hfm; destruct sym; reflexivity).
+  assert (Hlr : lres_of eimp = lres_spec cur i).
+  { unfold lres_spec. rewrite Hmean0, Hfm. unfold eimp, lres_of. destruct sym; reflexivity. }
+  assert (Hep : i_path eimp <> []).
+  { unfold eimp. destruct (resolve_fb_shape _ _ _ _ _ _ _ Er) as [_ [(_ & -> & ->)|(_ & _ & -> & Hne')]]; cbn.
+    - rewrite Ep; discriminate.
+    - exact Hne'. }
+  destruct (mem_key g (stack st)) eqn:Emem; [reflexivity|].
   apply mem_key_false in Emem.
-  destruct (lookup (x :: p') (loaded st)) as [info|] eqn:El.
-  - destruct (v_key _ Hinv _ _ El) as (f' & i' & Hr' & Himp' & Hp' & Ht').
-    assert (Hfile : mi_file info = g).
-    { assert (target fs cur i = target fs f' i') by (apply HF; auto; congruence). congruence. }
-    destruct (v_info _ Hinv _ _ El) as (m' & Hm' & Hex). rewrite Hfile, Hmg in Hm'. inversion Hm'; subst m'.
-    destruct (bind_exports_some i (mi_exports info) (ns st)) as (s' & Hs' & Hmono).
+  destruct (lookup g (loaded st)) as [info|] eqn:El.
+  - destruct (v_info _ Hinv _ _ El) as (_ & m' & Hm' & Hex). rewrite Hmg in Hm'. inversion Hm'; subst m'.
+    destruct (bind_exports_some eimp (mi_exports info) (ns st)) as (s' & Hs' & Hmono).
     { intros n Hin. eapply Hn; eauto. }
-    { intros l n Hf Hin. rewrite Hex. eapply Hsy; eauto. }
+    { intros l n Hf Hin. rewrite Hex. eapply Hsy; eauto. congruence. }
     rewrite Hs'. cbn. split; [| exact Hmono].
     intros k inf Hl Hk n Hin. apply Hmono. eapply Hn; eauto.
-  - rewrite Hb. pose proof Ht as Ht0. unfold target in Ht. rewrite Hstd, Ep in Ht.
-    destruct (resolve_fb fs (dir_of cur) (x :: p')) as [[[file actual] sym]|] eqn:Er; [| discriminate].
-    inversion Ht; subst file. rewrite <- Ep in Er. pose proof (HP cur i Himp _ _ _ Er) as ->.
-    pose proof Er as Er'. apply resolve_fb_shape in Er' as [_ [[-> _]|[_ Hbad]]]; [| discriminate].
-    rewrite Hmg. rewrite <- Ep in *.
-    eapply compile_e; eauto.
+  - rewrite Hmg. eapply compile_e; eauto.
 Qed.
 
-Lemma load_e : forall n, egood (load fs n).
+Lemma load_e : forall n, egood (load fs root n).
 Proof.
   induction n as [|n IH]; [intros cur m i st _ _ _ _ _ _; exact I|].
   cbn [load]. apply load_step_e; [apply load_v | exact IH].
@@ -875,7 +928,7 @@ Qed.
 
 Lemma entry_go_e : forall n me, find_file fs E = Some me ->
   forall imps s acc orig, incl imps (m_imports me) -> inv s -> base s = dir_of E -> ninv s ->
-  match entry_go fs n imps s acc orig with
+  match entry_go fs root n imps s acc orig with
   | Err e _ => e = ECircular \/ e = ESymbolConflict
   | _ => True
   end.
@@ -883,145 +936,51 @@ Proof.
   intros n me Hme imps; induction imps as [|j r IH]; intros s acc orig Hincl Hinv Hb Hn; cbn; [exact I|].
   pose proof (load_v n E me j s (r_refl fs E) Hme (Hincl j (or_introl eq_refl)) Hinv Hb) as Hvj.
   pose proof (load_e n E me j s (r_refl fs E) Hme (Hincl j (or_introl eq_refl)) Hinv Hb Hn) as Hej.
-  destruct (load fs n j s) as [[s' lr]| |]; cbn in *; auto.
+  destruct (load fs root n j s) as [[s' lr]| |]; cbn in *; auto.
   destruct Hvj as ((Hi' & Hs' & Hb' & _) & _). destruct Hej as [Hn' _].
-  destruct (contrib_entry acc orig j lr (loaded s')) as [[acc' orig']|]; [| right; reflexivity].
+  destruct (contrib_entry acc orig j lr _) as [[acc' orig']|]; [| right; reflexivity].
   apply IH; auto. - intros x Hx; apply Hincl; right; exact Hx. - congruence.
 Qed.
 
 Lemma run_err_kind : forall fuel e tr, run fs E fuel = Err e tr -> find_file fs E <> None ->
   e = ECircular \/ e = ESymbolConflict.
 Proof.
-  intros fuel e tr. unfold run. destruct (find_file fs E) as [me|] eqn:Hme; [| intros _ H; contradiction].
+  intros fuel e tr. unfold run. fold root. destruct (find_file fs E) as [me|] eqn:Hme; [| intros _ H; contradiction].
   pose proof (entry_go_e fuel me Hme (m_imports me) (init_state E) ([], []) [] (fun x Hx => Hx) init_inv eq_refl) as Hg.
-  destruct (entry_go fs fuel (m_imports me) (init_state E) ([], []) []) as [[st acc]| |]; try discriminate.
+  destruct (entry_go fs root fuel (m_imports me) (init_state E) ([], []) []) as [[st acc]| |]; try discriminate.
   intros H _; inversion H; subst. apply Hg. intros k info Hl; discriminate.
-Qed.
-
-(* compile-time name sets of every top level that ran *)
-Local Notation entry_names_ok := (ModulesSpec.entry_names_ok fs E).
-
-Lemma run_names : forall fuel evs me, run fs E fuel = Ok evs -> find_file fs E = Some me ->
-  exists evs0 ev, evs = evs0 ++ [ev] /\ ev_file ev = E /\ ev_key ev = [] /\
-    (forall e, In e evs0 -> ev_ok_mod e) /\
-    (no_std_imports me -> nonempty_symbols me -> entry_names_ok me ev).
-Proof.
-  intros fuel evs me. unfold run. intros Hrun Hme. rewrite Hme in Hrun.
-  pose proof (entry_go_v fuel me Hme (m_imports me) [] (init_state E) ([], []) [] eq_refl init_inv eq_refl
-                (fun j Hj => match Hj with end) (fun _ _ => names_spec_nil _)) as Hg.
-  destruct (entry_go fs fuel (m_imports me) (init_state E) ([], []) []) as [[st acc]| |]; try discriminate.
-  destruct Hg as ((Hinv & _ & _ & _ & _) & _ & Hnames).
-  inversion Hrun; subst evs; clear Hrun.
-  eexists. eexists. split; [reflexivity|]. cbn [ev_file ev_key]. split; [reflexivity|]. split; [reflexivity|].
-  split; [apply (v_evs _ Hinv)|].
-  intros Hns Hne. destruct (Hnames Hns Hne) as [HA HK]. split; cbn [ev_aliases ev_known]; [exact HA|].
-  intro n. rewrite in_app_iff, HK. reflexivity.
 Qed.
 End Dfs.
 
-(* ---- the guard keys_ok discharges the three hypotheses *)
-Lemma imports_of_In : forall fs f m i, In (f, m) fs -> In i (m_imports m) -> is_std (i_path i) = false ->
-  In (f, i) (imports_of fs).
-Proof.
-  intros fs f m i Hf Hi Hs. unfold imports_of. apply in_flat_map. exists (f, m); split; [exact Hf|].
-  cbn. apply in_map. apply filter_In; split; [exact Hi | rewrite Hs; reflexivity].
-Qed.
-
-Lemma keys_ok_sound : forall fs, keys_ok fs = true ->
-  (forall f i, imp_of fs f i -> forall g a s, resolve_fb fs (dir_of f) (i_path i) = Some (g, a, s) -> s = None) /\
-  (forall f i f' i', imp_of fs f i -> imp_of fs f' i' -> i_path i = i_path i' -> target fs f i = target fs f' i') /\
-  (forall f i f' i' g, imp_of fs f i -> imp_of fs f' i' -> target fs f i = Some g -> target fs f' i' = Some g ->
-                       i_path i = i_path i').
-Proof.
-  intros fs Hk. unfold keys_ok in Hk. apply andb_true_iff in Hk as [Hpl Hpair].
-  rewrite forallb_forall in Hpl. rewrite forallb_forall in Hpair.
-  assert (Hin : forall f i, imp_of fs f i -> In (f, i) (imports_of fs)).
-  { intros f i (m & Hm & Hi & Hs). eapply imports_of_In; eauto. apply lookup_In; exact Hm. }
-  assert (Hpo : forall f i f' i', imp_of fs f i -> imp_of fs f' i' -> pair_ok fs (f, i) (f', i') = true).
-  { intros f i f' i' H1 H2. pose proof (Hpair _ (Hin _ _ H1)) as H. rewrite forallb_forall in H. apply H, Hin, H2. }
-  split; [| split].
-  - intros f i H g a s Hr. pose proof (Hpl _ (Hin _ _ H)) as Hp. unfold plain_b, res_of in Hp; cbn [fst snd] in Hp.
-    rewrite Hr in Hp. destruct s; [discriminate | reflexivity].
-  - intros f i f' i' H1 H2 Hp. pose proof (Hpo _ _ _ _ H1 H2) as Hq.
-    destruct H1 as (_ & _ & _ & Hs1). destruct H2 as (_ & _ & _ & Hs2).
-    unfold target. rewrite Hs1, Hs2. unfold pair_ok, res_of in Hq; cbn [fst snd] in Hq.
-    assert (Hsame : key_eqb (i_path i) (i_path i') = true) by (apply key_eqb_eq; exact Hp).
-    rewrite Hsame in Hq.
-    destruct (resolve_fb fs (dir_of f) (i_path i)) as [[[g a] s]|];
-      destruct (resolve_fb fs (dir_of f') (i_path i')) as [[[g' a'] s']|]; try discriminate; try reflexivity.
-    destruct (key_eqb g g') eqn:Eg; [apply key_eqb_eq in Eg; subst; reflexivity | discriminate].
-  - intros f i f' i' g H1 H2 Ht1 Ht2. pose proof (Hpo _ _ _ _ H1 H2) as Hq.
-    destruct H1 as (_ & _ & _ & Hs1). destruct H2 as (_ & _ & _ & Hs2).
-    unfold target in Ht1, Ht2. rewrite Hs1 in Ht1. rewrite Hs2 in Ht2.
-    unfold pair_ok, res_of in Hq; cbn [fst snd] in Hq.
-    destruct (resolve_fb fs (dir_of f) (i_path i)) as [[[g1 a] s]|]; [| discriminate].
-    destruct (resolve_fb fs (dir_of f') (i_path i')) as [[[g2 a'] s']|]; [| discriminate].
-    inversion Ht1; inversion Ht2; subst g1 g2. rewrite key_eqb_refl in Hq.
-    destruct (key_eqb (i_path i) (i_path i')) eqn:Ek; [apply key_eqb_eq in Ek; exact Ek | discriminate].
-Qed.
-
 (* ================================================================ the property theorems' lemmas *)
-Lemma init_once_lemma : forall fs E fuel evs, keys_ok fs = true -> run fs E fuel = Ok evs ->
+Lemma init_once_lemma : forall fs E fuel evs, run fs E fuel = Ok evs ->
   let tr := map ev_file evs in
-  NoDup tr /\ (forall f, In f tr <-> reachable fs E f) /\ postorder fs tr /\ (exists l, tr = l ++ [E]).
-Proof.
-  intros fs E fuel evs Hk Hrun. destruct (keys_ok_sound fs Hk) as (HP & HF & HI).
-  eapply run_trace; eauto.
-Qed.
+  NoDup tr /\ (forall f, In f tr <-> reachable fs E f) /\ postorder fs E tr /\ (exists l, tr = l ++ [E]).
+Proof. intros fs E fuel evs Hrun. eapply run_trace; eauto. Qed.
 
-Lemma visibility_lemma : forall fs E fuel evs me, keys_ok fs = true ->
-  run fs E fuel = Ok evs -> find_file fs E = Some me ->
-  exists evs0 ev, evs = evs0 ++ [ev] /\ ev_file ev = E /\ ev_key ev = [] /\
-    (forall e, In e evs0 -> ev_ok_mod fs e) /\
-    (no_std_imports me -> nonempty_symbols me -> entry_names_ok fs E me ev).
-Proof.
-  intros fs E fuel evs me Hk Hrun Hme. destruct (keys_ok_sound fs Hk) as (HP & HF & HI).
-  eapply run_names; eauto.
-Qed.
+Lemma cycle_never_ok_lemma : forall fs E fuel f,
+  reachable fs E f -> path_plus fs E f f -> forall evs, run fs E fuel <> Ok evs.
+Proof. intros fs E fuel f Hr Hp evs Hrun. eapply run_cycle; eauto. Qed.
 
-(* with one selected symbol per `needs .. from ..` a module gets exactly what the entry would *)
-Lemma nested_eq_single : forall fs f m j, single_symbols m -> In j (m_imports m) ->
-  granted_bare_nested fs f j = granted_bare fs f j.
+Lemma cycle_reported_lemma : forall fs E fuel f, (fuel >= fuel_bound fs)%nat ->
+  reachable fs E f -> path_plus fs E f f -> exists e tr, run fs E fuel = Err e tr.
 Proof.
-  intros fs f m j Hs Hj. unfold granted_bare_nested, granted_bare.
-  destruct (target fs f j); [| reflexivity]. destruct (find_file fs f0); [| reflexivity].
-  destruct (i_form j) as [|a|l|] eqn:Ef; try reflexivity.
-  destruct (Hs j l Hj Ef) as [x ->]. reflexivity.
-Qed.
-
-Lemma cycle_never_ok_lemma : forall fs E fuel f, keys_ok fs = true ->
-  reachable fs E f -> path_plus fs f f -> forall evs, run fs E fuel <> Ok evs.
-Proof.
-  intros fs E fuel f Hk Hr Hp evs Hrun. destruct (keys_ok_sound fs Hk) as (HP & HF & HI).
-  eapply run_cycle; eauto.
-Qed.
-
-Lemma cycle_reported_lemma : forall fs E fuel f, keys_ok fs = true -> (fuel >= fuel_bound fs)%nat ->
-  reachable fs E f -> path_plus fs f f -> exists e tr, run fs E fuel = Err e tr.
-Proof.
-  intros fs E fuel f Hk Hf Hr Hp.
+  intros fs E fuel f Hf Hr Hp.
   destruct (run fs E fuel) as [evs|e tr|] eqn:Hrun.
   - exfalso. eapply cycle_never_ok_lemma; eauto.
   - eauto.
   - exfalso. eapply no_divergence_lemma; eauto.
 Qed.
 
-(* ---- error kind *)
-Lemma mem_id_true_In : forall n l, mem_id n l = true -> In n l.
-Proof.
-  induction l as [|x l IH]; cbn; [discriminate|]. intro H. apply orb_true_iff in H as [H|H].
-  - apply N.eqb_eq in H; auto.
-  - auto.
-Qed.
-
-Lemma clean_b_sound : forall fs E, clean_b fs = true -> clean fs E.
+Lemma clean_b_sound : forall fs E, clean_b fs (dir_of E) = true -> clean fs E.
 Proof.
   intros fs E Hc f m i _ Hm Hi Hstd. unfold clean_b in Hc. rewrite forallb_forall in Hc.
   apply lookup_In in Hm. apply Hc in Hm. cbn in Hm. rewrite forallb_forall in Hm. apply Hm in Hi.
   rewrite Hstd in Hi. cbn in Hi. apply andb_true_iff in Hi as [Hne Hi].
   split; [destruct (i_path i); [discriminate | discriminate]|].
-  destruct (target fs f i) as [g|]; [| discriminate]. destruct (find_file fs g) as [mg|] eqn:Eg; [| discriminate].
-  exists g, mg. split; [reflexivity|]. split; [exact Eg|].
+  destruct (meaning fs (dir_of E) f i) as [[g fm]|]; [| discriminate].
+  destruct (find_file fs g) as [mg|] eqn:Eg; [| discriminate].
+  exists g, fm, mg. split; [reflexivity|]. split; [exact Eg|].
   intros l s Hf Hs. rewrite Hf in Hi. rewrite forallb_forall in Hi. apply mem_id_true_In, Hi, Hs.
 Qed.
 
@@ -1030,213 +989,125 @@ Proof.
   intros fs E f Hr; induction Hr as [|g h Hr IH He]; [left; reflexivity|].
   destruct IH as [->|IH]; [| right; exact IH]. destruct He as (m & i & Hm & _). right; congruence.
 Qed.
-Lemma pp_src : forall fs f g, path_plus fs f g -> find_file fs f <> None.
+Lemma pp_src : forall fs E f g, path_plus fs E f g -> find_file fs f <> None.
 Proof.
-  intros fs f g Hp; induction Hp as [f g He | f g h Hp IH He]; [| exact IH].
+  intros fs E f g Hp; induction Hp as [f g He | f g h Hp IH He]; [| exact IH].
   destruct He as (m & i & Hm & _). congruence.
 Qed.
 
-Lemma cycle_circular_lemma : forall fs E fuel f, keys_ok fs = true -> clean fs E ->
-  (fuel >= fuel_bound fs)%nat -> reachable fs E f -> path_plus fs f f ->
+Lemma cycle_circular_lemma : forall fs E fuel f, clean fs E ->
+  (fuel >= fuel_bound fs)%nat -> reachable fs E f -> path_plus fs E f f ->
   exists tr, run fs E fuel = Err ECircular tr \/ run fs E fuel = Err ESymbolConflict tr.
 Proof.
-  intros fs E fuel f Hk Hc Hf Hr Hp. destruct (keys_ok_sound fs Hk) as (HP & HF & HI).
-  destruct (cycle_reported_lemma fs E fuel f Hk Hf Hr Hp) as (e & tr & Hrun).
+  intros fs E fuel f Hc Hf Hr Hp.
+  destruct (cycle_reported_lemma fs E fuel f Hf Hr Hp) as (e & tr & Hrun).
   assert (HE : find_file fs E <> None).
   { destruct (reach_src fs E f Hr) as [->|H]; [eapply pp_src; eauto | exact H]. }
-  exists tr. destruct (run_err_kind fs E HP HF HI Hc fuel e tr Hrun HE) as [->| ->]; auto.
+  exists tr. destruct (run_err_kind fs E Hc fuel e tr Hrun HE) as [->| ->]; auto.
 Qed.
 
-(* ---- the flat case: every file in the entry's directory, single-segment imports *)
-Lemma flat_facts : forall fs, flat fs = true ->
-  (forall f m, find_file fs f = Some m -> exists x, f = [x]) /\
-  (forall f i, imp_of fs f i -> exists y, i_path i = [y] /\ dir_of f = []).
+Lemma visibility_lemma : forall fs E fuel evs, run fs E fuel = Ok evs -> forall ev, In ev evs ->
+  names_ok fs E ev /\ selected_are_pub fs E (ev_file ev).
+Proof. intros fs E fuel evs Hrun ev Hev. eapply run_names; eauto. Qed.
+
+(* every bare name a top level knows is its own or a pub name of a module one of its imports means *)
+Lemma known_are_pub_lemma : forall fs E fuel evs, run fs E fuel = Ok evs -> forall ev m, In ev evs ->
+  find_file fs (ev_file ev) = Some m -> no_std_imports m -> nonempty_symbols m ->
+  forall n, In n (ev_known ev) ->
+    In n (map d_name (m_defs m)) \/
+    exists j g fm mg, In j (m_imports m) /\ meaning fs (dir_of E) (ev_file ev) j = Some (g, fm) /\
+                      find_file fs g = Some mg /\ In n (pub_names mg).
 Proof.
-  intros fs Hfl. unfold flat in Hfl. rewrite forallb_forall in Hfl.
-  assert (H1 : forall f m, find_file fs f = Some m -> exists x, f = [x]).
-  { intros f m Hm. apply lookup_In in Hm. apply Hfl in Hm. cbn in Hm. apply andb_true_iff in Hm as [Hm _].
-    destruct f as [|x [|? ?]]; try discriminate. eauto. }
-  split; [exact H1|].
-  intros f i (m & Hm & Hi & Hs). destruct (H1 f m Hm) as [x ->].
-  apply lookup_In in Hm. apply Hfl in Hm. cbn in Hm.
-  rewrite forallb_forall in Hm. apply Hm in Hi. rewrite Hs in Hi. cbn in Hi.
-  destruct (i_path i) as [|y [|? ?]]; try discriminate. exists y; auto.
+  intros fs E fuel evs Hrun ev m Hev Hm Hns Hne n Hn.
+  destruct (visibility_lemma fs E fuel evs Hrun ev Hev) as [Hnames Hpub].
+  destruct (Hnames m Hm Hns Hne) as [_ HK]. apply HK in Hn as [Hn|(j & Hj & Hn)]; [left; exact Hn|].
+  right. destruct (Hpub m j Hm Hj (Hns j Hj)) as (g & fm & mg & Hmean & Hmg & Hsy).
+  exists j, g, fm, mg. split; [exact Hj|]. split; [exact Hmean|]. split; [exact Hmg|].
+  unfold granted_bare in Hn. rewrite Hmean, Hmg in Hn.
+  destruct fm as [|a|l|]; try exact Hn; [destruct Hn | eapply Hsy; eauto].
 Qed.
 
-Lemma flat_resolve : forall fs y, flat fs = true ->
-  resolve_fb fs [] [y] = match find_file fs [y] with Some _ => Some ([y], [y], None) | None => None end.
+(* a qualifier that no import grants names nothing *)
+Lemma qualifier_exact_lemma : forall ev q n, ~ In q (ev_aliases ev) -> probe ev (SQual q n) = None.
 Proof.
-  intros fs y Hfl. destruct (flat_facts fs Hfl) as [H1 _].
-  unfold resolve_fb, resolve_direct. cbn [app].
-  destruct (find_file fs [y]); [reflexivity|].
-  destruct (find_file fs [y; MODSEG]) eqn:E2; [| reflexivity].
-  destruct (H1 _ _ E2) as [x Hx]; discriminate.
-Qed.
-
-Lemma flat_sound : forall fs, flat fs = true ->
-  (forall f i, imp_of fs f i -> forall g a s, resolve_fb fs (dir_of f) (i_path i) = Some (g, a, s) -> s = None) /\
-  (forall f i f' i', imp_of fs f i -> imp_of fs f' i' -> i_path i = i_path i' -> target fs f i = target fs f' i') /\
-  (forall f i f' i' g, imp_of fs f i -> imp_of fs f' i' -> target fs f i = Some g -> target fs f' i' = Some g ->
-                       i_path i = i_path i').
-Proof.
-  intros fs Hfl. destruct (flat_facts fs Hfl) as [_ H2].
-  split; [| split].
-  - intros f i H g a s. destruct (H2 f i H) as (y & -> & ->). rewrite flat_resolve by assumption.
-    destruct (find_file fs [y]); intro Hr; inversion Hr; reflexivity.
-  - intros f i f' i' H H' Hp. destruct (H2 f i H) as (y & Hy & Hd). destruct (H2 f' i' H') as (y' & Hy' & Hd').
-    destruct H as (_ & _ & _ & Hs). destruct H' as (_ & _ & _ & Hs').
-    unfold target. rewrite Hs, Hs', Hd, Hd', <- Hp. reflexivity.
-  - intros f i f' i' g H H' Ht Ht'. destruct (H2 f i H) as (y & Hy & Hd). destruct (H2 f' i' H') as (y' & Hy' & Hd').
-    unfold target in Ht, Ht'. destruct H as (_ & _ & _ & Hs). destruct H' as (_ & _ & _ & Hs').
-    rewrite Hs, Hd, Hy, flat_resolve in Ht by assumption. rewrite Hs', Hd', Hy', flat_resolve in Ht' by assumption.
-    destruct (find_file fs [y]); [| discriminate]. destruct (find_file fs [y']); [| discriminate].
-    inversion Ht; inversion Ht'; subst. congruence.
-Qed.
-
-Lemma init_once_flat_lemma : forall fs E fuel evs, flat fs = true -> run fs E fuel = Ok evs ->
-  let tr := map ev_file evs in
-  NoDup tr /\ (forall f, In f tr <-> reachable fs E f) /\ postorder fs tr /\ (exists l, tr = l ++ [E]).
-Proof.
-  intros fs E fuel evs Hk Hrun. destruct (flat_sound fs Hk) as (HP & HF & HI).
-  eapply run_trace; eauto.
-Qed.
-
-Lemma cycle_reported_flat_lemma : forall fs E fuel f, flat fs = true -> (fuel >= fuel_bound fs)%nat ->
-  reachable fs E f -> path_plus fs f f -> exists e tr, run fs E fuel = Err e tr.
-Proof.
-  intros fs E fuel f Hk Hf Hr Hp. destruct (flat_sound fs Hk) as (HP & HF & HI).
-  destruct (run fs E fuel) as [evs|e tr|] eqn:Hrun.
-  - exfalso. eapply run_cycle; eauto.
-  - eauto.
-  - exfalso. eapply no_divergence_lemma; eauto.
+  intros ev q n Hq. unfold probe. destruct (mem_id q (ev_aliases ev)) eqn:Em; [| reflexivity].
+  apply mem_id_true_In in Em. contradiction.
 Qed.
 
 (* ================================================================ witnesses (computation) *)
 Ltac solve_edge :=
   eexists; eexists; split; [vm_compute; reflexivity | split; [cbn; eauto 10 | vm_compute; reflexivity]].
 
-
-Lemma key_collision_refuted_lemma : exists fs E evs ev,
-  run fs E (fuel_bound fs) = Ok evs /\
-  reachable fs E [21;12] /\ ~ In [21;12] (map ev_file evs) /\
-  In ev evs /\ ev_file ev = [21;11] /\
-  target fs [21;11] (imp [12] FModule) = Some [21;12] /\
-  probe ev (SQual 12 40) = Some ([20;12], 40) /\ probe ev (SQual 12 41) = Some ([20;12], 41) /\
-  probe ev (SQual 12 42) = None.
-Proof.
-  exists w_collision, E9. eexists. eexists. split; [vm_compute; reflexivity|].
-  split. { eapply r_step; [eapply r_step; [apply r_refl | solve_edge] | solve_edge]. }
-  split. { cbn. intros [H|[H|[H|[H|[]]]]]; discriminate. }
-  split. { right; right; left; reflexivity. }
-  vm_compute. repeat split; reflexivity.
-Qed.
-
-
-Lemma one_file_two_keys_refuted_lemma : exists fs E evs,
-  run fs E (fuel_bound fs) = Ok evs /\ map ev_file evs = [[20;10]; [20;10]; [20;11]; [9]] /\
-  target fs E (imp [20;10] (FAlias 70)) = Some [20;10] /\ target fs [20;11] (imp [10] FModule) = Some [20;10].
-Proof.
-  exists w_twokeys, E9. eexists. split; [vm_compute; reflexivity|]. vm_compute. repeat split; reflexivity.
-Qed.
-
-
+(* still false of the loader: the one VM namespace (KF-C19-3, KF-C19-8) *)
 Lemma flat_namespace_collision_refuted_lemma : exists fs E evs ev,
-  flat fs = true /\ keys_ok fs = true /\ run fs E (fuel_bound fs) = Ok evs /\
-  In ev evs /\ ev_file ev = [12] /\ target fs [12] (imp [10] (FAlias 73)) = Some [10] /\
+  run fs E (fuel_bound fs) = Ok evs /\
+  In ev evs /\ ev_file ev = [12] /\ meaning fs (dir_of E) [12] (imp [10] (FAlias 73)) = Some ([10], FAlias 73) /\
   find_file fs [11] = Some (M [] [D 40 false; D 45 true]) /\
   probe ev (SQual 73 40) = Some ([11], 40).
 Proof.
-  exists w_flatns, E9. eexists. eexists. split; [reflexivity|]. split; [reflexivity|].
+  exists w_flatns, E9. eexists. eexists.
   split; [vm_compute; reflexivity|]. split. { right; right; left; reflexivity. }
   vm_compute. repeat split; reflexivity.
 Qed.
 
-
-Lemma cycle_reported_refuted_lemma : exists fs E evs,
-  flat fs = false /\ keys_ok fs = false /\
-  reachable fs E [10] /\ path_plus fs [10] [10] /\ run fs E (fuel_bound fs) = Ok evs /\
-  map ev_file evs = [[11]; [10]; [9]].
-Proof.
-  exists w_pscycle, E9. eexists. split; [reflexivity|]. split; [reflexivity|].
-  split. { eapply r_step; [apply r_refl | solve_edge]. }
-  split. { eapply pp_step; [apply pp_one; solve_edge | solve_edge]. }
-  split; vm_compute; reflexivity.
-Qed.
-
-
-Lemma private_leak_refuted_lemma : exists fs E evs ev m,
-  run fs E (fuel_bound fs) = Ok evs /\ In ev evs /\ ev_file ev = E /\
-  find_file fs [10] = Some m /\ ~ In 42 (pub_names m) /\ probe ev (SBare 42) = Some ([10], 42).
-Proof.
-  exists w_leak, E9. eexists. eexists. eexists. split; [vm_compute; reflexivity|].
-  split. { right; left; reflexivity. }
-  split; [reflexivity|]. split; [vm_compute; reflexivity|].
-  split. { cbn. intros [H|[]]; discriminate. }
-  vm_compute; reflexivity.
-Qed.
-
-
-Lemma nested_second_symbol_refuted_lemma : exists fs E evs ev ev',
-  flat fs = true /\ keys_ok fs = true /\ unique_defs fs = true /\
-  run fs E (fuel_bound fs) = Ok evs /\
-  In ev evs /\ ev_file ev = E /\ probe ev (SBare 42) = Some ([10], 42) /\
-  In ev' evs /\ ev_file ev' = [11] /\ In 42 (granted_bare fs [11] (imp [10] (FSymbols [40;42]))) /\
-  probe ev' (SBare 40) = Some ([10], 40) /\ probe ev' (SBare 42) = None.
-Proof.
-  exists w_second, E9. eexists. eexists. eexists.
-  split; [reflexivity|]. split; [reflexivity|]. split; [reflexivity|].
-  split; [vm_compute; reflexivity|].
-  split. { right; right; left; reflexivity. }
-  split; [reflexivity|]. split; [vm_compute; reflexivity|].
-  split. { right; left; reflexivity. }
-  split; [reflexivity|]. split. { vm_compute. auto. }
-  split; vm_compute; reflexivity.
-Qed.
-
-
-Lemma qualifier_dropped_refuted_lemma : exists fs E evs ev,
-  flat fs = true /\ keys_ok fs = true /\ unique_defs fs = true /\
-  run fs E (fuel_bound fs) = Ok evs /\ In ev evs /\ ev_file ev = E /\
-  (forall i, In i [imp [10] (FSymbols [40])] -> granted_qualifier i = None) /\
-  probe ev (SQual 10 40) = Some ([10], 40) /\ probe ev (SQual 99 40) = Some ([10], 40).
-Proof.
-  exists w_qual, E9. eexists. eexists.
-  split; [reflexivity|]. split; [reflexivity|]. split; [reflexivity|].
-  split; [vm_compute; reflexivity|].
-  split. { right; left; reflexivity. }
-  split; [reflexivity|].
-  split. { intros i [<-|[]]; reflexivity. }
-  split; vm_compute; reflexivity.
-Qed.
-
-
 Lemma shared_qualifier_refuted_lemma : exists fs E evs ev,
-  flat fs = true /\ keys_ok fs = true /\ unique_defs fs = true /\
+  unique_defs fs = true /\
   run fs E (fuel_bound fs) = Ok evs /\ In ev evs /\ ev_file ev = [12] /\
   find_file fs [12] = Some (M [imp [10] (FAlias 70)] [D 46 true]) /\
-  target fs [12] (imp [10] (FAlias 70)) = Some [10] /\
+  meaning fs (dir_of E) [12] (imp [10] (FAlias 70)) = Some ([10], FAlias 70) /\
   probe ev (SQual 70 44) = Some ([11], 44).
 Proof.
   exists w_shared_q, E9. eexists. eexists.
-  split; [reflexivity|]. split; [reflexivity|]. split; [reflexivity|].
+  split; [reflexivity|].
   split; [vm_compute; reflexivity|].
   split. { right; right; right; left; reflexivity. }
   vm_compute. repeat split; reflexivity.
 Qed.
 
+(* the trees that used to refute the property (kept as regression examples): what the repaired
+   loader does with them *)
+Lemma repaired_examples_lemma :
+  (* two directories with a file of the same name: both initialise, each importer gets its own *)
+  (exists evs ev, run w_collision E9 (fuel_bound w_collision) = Ok evs /\
+     map ev_file evs = [[20;12]; [20;10]; [21;12]; [21;11]; [9]] /\ In ev evs /\ ev_file ev = [21;11] /\
+     probe ev (SQual 12 40) = Some ([21;12], 40) /\ probe ev (SQual 12 42) = Some ([21;12], 42)) /\
+  (* one file under two dotted paths: once *)
+  (exists evs, run w_twokeys E9 (fuel_bound w_twokeys) = Ok evs /\ map ev_file evs = [[20;10]; [20;11]; [9]]) /\
+  (* a cycle written `needs mod.symbol`: CircularDependency *)
+  (exists tr, run w_pscycle E9 (fuel_bound w_pscycle) = Err ECircular tr) /\
+  (* `needs m` then `needs m.private`: SymbolNotFound *)
+  (exists tr, run w_leak E9 (fuel_bound w_leak) = Err ESymbolNotFound tr) /\
+  (* two selected symbols inside a module: both usable *)
+  (exists evs ev, run w_second E9 (fuel_bound w_second) = Ok evs /\ In ev evs /\ ev_file ev = [11] /\
+     probe ev (SBare 40) = Some ([10], 40) /\ probe ev (SBare 42) = Some ([10], 42)) /\
+  (* `needs n40 from n10`: only the bare spelling *)
+  (exists evs ev, run w_qual E9 (fuel_bound w_qual) = Ok evs /\ In ev evs /\ ev_file ev = E9 /\
+     probe ev (SBare 40) = Some ([10], 40) /\ probe ev (SQual 10 40) = None /\ probe ev (SQual 99 40) = None).
+Proof.
+  split. { eexists. eexists. split; [vm_compute; reflexivity|]. split; [reflexivity|].
+           split; [right; right; right; left; reflexivity|]. vm_compute. repeat split; reflexivity. }
+  split. { eexists. split; vm_compute; reflexivity. }
+  split. { eexists. vm_compute; reflexivity. }
+  split. { eexists. vm_compute; reflexivity. }
+  split. { eexists. eexists. split; [vm_compute; reflexivity|]. split; [right; left; reflexivity|].
+           vm_compute. repeat split; reflexivity. }
+  eexists. eexists. split; [vm_compute; reflexivity|]. split; [right; left; reflexivity|].
+  vm_compute. repeat split; reflexivity.
+Qed.
 
-
+(* non-vacuity: a diamond with all import forms initialises in post-order; a 6-cycle behind a
+   tail is reported; both trees are clean *)
 Lemma nonvacuous_lemma :
-  flat w_diamond = true /\ keys_ok w_diamond = true /\
+  clean_b w_diamond [] = true /\
   (exists evs, run w_diamond E9 (fuel_bound w_diamond) = Ok evs /\
                map ev_file evs = [[19]; [10]; [11]; [12]; [9]]) /\
-  flat w_cycle6 = true /\ keys_ok w_cycle6 = true /\ clean_b w_cycle6 = true /\
-  reachable w_cycle6 E9 [11] /\ path_plus w_cycle6 [11] [11] /\
+  clean_b w_cycle6 [] = true /\
+  reachable w_cycle6 E9 [11] /\ path_plus w_cycle6 E9 [11] [11] /\
   (exists tr, run w_cycle6 E9 (fuel_bound w_cycle6) = Err ECircular tr /\ map ev_file tr = [[19]]).
 Proof.
-  split; [reflexivity|]. split; [reflexivity|].
+  split; [reflexivity|].
   split. { eexists. split; vm_compute; reflexivity. }
-  split; [reflexivity|]. split; [reflexivity|]. split; [reflexivity|].
+  split; [reflexivity|].
   split. { eapply r_step; [eapply r_step; [apply r_refl | solve_edge] | solve_edge]. }
   split. { eapply pp_step; [eapply pp_step; [eapply pp_step; [eapply pp_step; [eapply pp_step;
            [apply pp_one; solve_edge | solve_edge] | solve_edge] | solve_edge] | solve_edge] | solve_edge]. }
